@@ -1,9 +1,28 @@
 /-
-Lemmas.Exp2Bound — shared lemmas for the accuracy bounds of `exp2`, `exp_m1` (C14f) and `cosh/sinh/tanh` (C18h).
+Lemmas.Exp2Bound — lemmas behind the accuracy bounds of `exp2`, `exp_m1` (property C14; statements in
+`TFV/Properties/C14f.lean`) and of `cosh`, `sinh`, `tanh` (property C18; `TFV/Properties/C18h.lean`).
+Built on `Lemmas/ExpBound.lean` (`rv t = t.V / 2^1074 : ℝ`, `VW t = t.Valid ∧ t.WF`, `mul_rv`, `add_rv`, …).
+
+ §1  operators over `ℝ`:
+     `div_pow2_int` / `div_pow2_rv` (`TwoFloat / f64` by `2^m`, high word divisible by `2^m`: the high quotient is
+     exact, the low quotient one rounding), `div_pow2_tiny_int` (the same in the underflow range `|hi| < 2^(52+m)`
+     units: everything is a small integer), `div_pow2_gen` (ALL valid operands, `1 ≤ m ≤ 40`: relative `u²(1+2u)` plus
+     one unit `2^-1074`), `sub_rv`, `neg_rv`, `hi_window`, `div_rv` (`TwoFloat / TwoFloat`, `16u²`).
+ §2  `exp2`, real-number cores: `reduce_real`, `horner_tail_real`, `exp_taylor12`, `sq_step_real`.
+ §3  `exp2`, the polynomial: `hp2`, `horner_inv2` (`4u²` self-sustaining down to the coefficient `1/2!`),
+     `horner2_bound` (`3.04u²` absolute).
+ §4  `exp2`, the nine squarings: `sqn`, `eb` (`ε ↦ 2ε + 7.01u²`), `sq_iter`.
+ §5  `exp2`, the final scaling: `scale_pow2`.
+ §6  `exp2`, the assembly: `exp2_bound_main` (`5633u² < 2^-93`).
+ §7  `exp_m1`: `abs_cases`, `abs_rv'`, `expm1_core_real` / `expm1_kernel` (`|x| ≤ 1/128`: `9.3u²`),
+     `horner_inv_wide` / `expm1_kernel_wide` (`0 ≤ t ≤ 0.7`: `42u²`), `taylor_wide`.
+ §8  `exp` with the accuracy of `exp_half` as a parameter: `exp_bound_beta`, `exp_half_table`,
+     `exp_bound_small_k` (`12.8u²` for `−0.2 ≤ x ≤ 15.7`).
 -/
 import TFV.Lemmas.ExpBound
 import TFV.Properties.C05x
 import TFV.Properties.C12x
+import TFV.Properties.C01d
 
 set_option exponentiation.threshold 4000
 
@@ -252,6 +271,1941 @@ theorem neg_rv {x : TwoFloat} (hx : VW x) :
   push_cast
   ring
 
+/-- integer window of the high word from real bounds on the value -/
+theorem hi_window {t : TwoFloat} (hv : t.Valid) {p q : ℕ} (hp : p ≤ 1073) (h1 : 1 / 2 ^ p ≤ |rv t|)
+    (h2 : |rv t| ≤ 2 ^ q) :
+    (2 : ℤ) ^ (1073 - p) ≤ |t.hi.toInt| ∧ |t.hi.toInt| ≤ 2 ^ (1075 + q) ∧
+    (2 : ℤ) ^ (1074 - p) ≤ |t.V| ∧ |t.V| ≤ 2 ^ (1074 + q) := by
+  obtain ⟨b1, b2⟩ := PowiBound.hi_bounds hv
+  have hV1 : (2 : ℤ) ^ (1074 - p) ≤ |t.V| := by
+    rw [rv_abs, le_div_iff₀ (by positivity)] at h1
+    have e : (1 : ℝ) / 2 ^ p * 2 ^ 1074 = 2 ^ (1074 - p) := by
+      rw [one_div, inv_mul_eq_div, div_eq_iff (by positivity), ← pow_add]
+      congr 1; omega
+    rw [e] at h1
+    exact_mod_cast h1
+  have hV2 : |t.V| ≤ (2 : ℤ) ^ (1074 + q) := V_abs_le_of_rv h2
+  refine ⟨?_, ?_, hV1, hV2⟩
+  · have e : (2 : ℤ) ^ (1074 - p) = 2 * 2 ^ (1073 - p) := by
+      rw [show 1074 - p = (1073 - p) + 1 by omega, pow_succ]; ring
+    rw [e] at hV1
+    have hP : (0 : ℤ) < 2 ^ (1073 - p) := by positivity
+    generalize (2 : ℤ) ^ (1073 - p) = P at *
+    have := abs_nonneg t.hi.toInt
+    norm_num at b2 ⊢
+    omega
+  · have e : (2 : ℤ) ^ (1075 + q) = 2 * 2 ^ (1074 + q) := by
+      rw [show 1075 + q = (1074 + q) + 1 by omega, pow_succ]; ring
+    rw [e]
+    generalize (2 : ℤ) ^ (1074 + q) = P at *
+    have := abs_nonneg t.hi.toInt
+    norm_num at b1 ⊢
+    omega
+
+/-- **`TwoFloat / TwoFloat` over `ℝ`**: relative error `16u² = 2^-102` when numerator, denominator and quotient have
+magnitude in `[2^-950, 2^1000]` -/
+theorem div_rv {a b : TwoFloat} (ha : VW a) (hb : VW b) (ha1 : 1 / 2 ^ 950 ≤ |rv a|) (ha2 : |rv a| ≤ 2 ^ 1000)
+    (hb1 : 1 / 2 ^ 950 ≤ |rv b|) (hb2 : |rv b| ≤ 2 ^ 1000)
+    (hq1 : 1 / 2 ^ 950 * |rv b| ≤ |rv a|) (hq2 : |rv a| ≤ 2 ^ 1000 * |rv b|) :
+    VW (arithmetic.impl_Div_TwoFloat_for_TwoFloat.div a b) ∧
+    |rv (arithmetic.impl_Div_TwoFloat_for_TwoFloat.div a b) - rv a / rv b| ≤ 1 / 2 ^ 102 * |rv a / rv b| := by
+  show VW (arithmetic.impl_Div_rTwoFloat_for_rTwoFloat.div a b) ∧
+    |rv (arithmetic.impl_Div_rTwoFloat_for_rTwoFloat.div a b) - rv a / rv b| ≤ 1 / 2 ^ 102 * |rv a / rv b|
+  obtain ⟨wa1, wa2, va1, va2⟩ := hi_window ha.1 (by norm_num : 950 ≤ 1073) ha1 ha2
+  obtain ⟨wb1, wb2, vb1, vb2⟩ := hi_window hb.1 (by norm_num : 950 ≤ 1073) hb1 hb2
+  obtain ⟨a1, a2⟩ := PowiBound.hi_bounds ha.1
+  obtain ⟨b1, b2⟩ := PowiBound.hi_bounds hb.1
+  have hUi := unit_pos_int
+  have hU : (0 : ℝ) < 2 ^ 1074 := by positivity
+  -- quotient bounds on the values, as integers
+  have q1 : |b.V| ≤ 2 ^ 950 * |a.V| := by
+    rw [rv_abs, rv_abs] at hq1
+    have : ((|b.V| : ℤ) : ℝ) ≤ 2 ^ 950 * ((|a.V| : ℤ) : ℝ) := by
+      have h := mul_le_mul_of_nonneg_right hq1 hU.le
+      rw [div_mul_cancel₀ _ hU.ne', mul_assoc, div_mul_cancel₀ _ hU.ne'] at h
+      have h2 := mul_le_mul_of_nonneg_left h (by positivity : (0 : ℝ) ≤ 2 ^ 950)
+      rw [← mul_assoc, mul_one_div_cancel (by positivity), one_mul] at h2
+      exact h2
+    exact_mod_cast this
+  have q2 : |a.V| ≤ 2 ^ 1000 * |b.V| := by
+    rw [rv_abs, rv_abs] at hq2
+    have : ((|a.V| : ℤ) : ℝ) ≤ 2 ^ 1000 * ((|b.V| : ℤ) : ℝ) := by
+      have h := mul_le_mul_of_nonneg_right hq2 hU.le
+      rw [div_mul_cancel₀ _ hU.ne', mul_assoc, div_mul_cancel₀ _ hU.ne'] at h
+      exact h
+    exact_mod_cast this
+  have pA := abs_nonneg a.hi.toInt
+  have pB := abs_nonneg b.hi.toInt
+  -- |A| ≤ 2|a.V|, |a.V| ≤ 2|A| etc.
+  have A_le : |a.hi.toInt| ≤ 2 * |a.V| := by norm_num at a1 ⊢; omega
+  have V_le : |a.V| ≤ 2 * |a.hi.toInt| := by norm_num at a2 ⊢; omega
+  have B_le : |b.hi.toInt| ≤ 2 * |b.V| := by norm_num at b1 ⊢; omega
+  have W_le : |b.V| ≤ 2 * |b.hi.toInt| := by norm_num at b2 ⊢; omega
+  have hAU : |a.hi.toInt * (unit : Int)| = |a.hi.toInt| * 2 ^ 1074 := by
+    rw [abs_mul_pos_right _ hUi, C01d.unit_int_eq]
+  have R : DivRange a.hi.toInt b.hi.toInt := by
+    refine ⟨le_trans (by norm_num) wa1, le_trans wa2 (by norm_num), le_trans wb2 (by norm_num), ?_, ?_⟩
+    · rw [hAU]
+      have e : (2 : ℤ) ^ 1074 = 2 ^ 64 * (4 * 2 ^ 950) * 2 ^ 58 := by norm_num
+      rw [e]
+      nlinarith
+    · rw [hAU]
+      have e : (2 : ℤ) ^ 2090 = 2 ^ 1074 * (4 * 2 ^ 1000) * 2 ^ 14 := by norm_num
+      rw [e]
+      nlinarith
+  have hB110 : 2 ^ 110 * |b.hi.toInt| ≤ |a.hi.toInt * (unit : Int)| := by
+    rw [hAU]
+    have e : (2 : ℤ) ^ 1074 = 2 ^ 110 * (4 * 2 ^ 950) * 2 ^ 12 := by norm_num
+    rw [e]
+    nlinarith
+  have hA110 : (2 : ℤ) ^ 110 ≤ |a.hi.toInt| := le_trans (by norm_num) wa1
+  obtain ⟨hV, hW⟩ := C01d.div_tt_valid_of_range ha.1 ha.2 hb.1 R
+  have hacc := C01d.div_tt_bound_of_range ha.1 ha.2 hb.1 R hB110 hA110
+  refine ⟨⟨hV, hW⟩, ?_⟩
+  show |rv (C01.divTT a b) - rv a / rv b| ≤ 1 / 2 ^ 102 * |rv a / rv b|
+  generalize C01.divTT a b = Q at *
+  have hb0 : (b.V : ℝ) ≠ 0 := by
+    have : (0 : ℤ) < |b.V| := lt_of_lt_of_le (by positivity) vb1
+    have : b.V ≠ 0 := abs_pos.1 this
+    exact_mod_cast this
+  rw [C01d.unit_int_eq] at hacc
+  have hr : (2 : ℝ) ^ 102 * |(a.V : ℝ) * 2 ^ 1074 - (Q.V : ℝ) * (b.V : ℝ)| ≤ |(a.V : ℝ) * 2 ^ 1074| := by
+    exact_mod_cast hacc
+  unfold rv
+  have e1 : (Q.V : ℝ) / 2 ^ 1074 - (a.V : ℝ) / 2 ^ 1074 / ((b.V : ℝ) / 2 ^ 1074)
+      = -((a.V : ℝ) * 2 ^ 1074 - (Q.V : ℝ) * (b.V : ℝ)) / (2 ^ 1074 * (b.V : ℝ)) := by
+    field_simp
+    ring
+  have e2 : (a.V : ℝ) / 2 ^ 1074 / ((b.V : ℝ) / 2 ^ 1074) = ((a.V : ℝ) * 2 ^ 1074) / (2 ^ 1074 * (b.V : ℝ)) := by
+    field_simp
+  rw [e1, e2, abs_div, abs_div, abs_neg, ← mul_div_assoc,
+    div_le_div_iff_of_pos_right (abs_pos.2 (mul_ne_zero hU.ne' hb0)), one_div_mul_eq_div, le_div_iff₀ (by positivity)]
+  linarith
+
+/-- **`TwoFloat / f64` by `2^m` in the underflow range** (`|hi| < 2^(52+m)` units): every step is an operation on
+small integers; the result is a valid pair within one unit `2^-1074` of the exact quotient -/
+theorem div_pow2_tiny_int {x : TwoFloat} {f : F64} {m : ℕ} (hx : x.Valid) (_hw : x.WF)
+    (hf : IsVal f (2 ^ m * (unit : Int))) (hm1 : 1 ≤ m) (hm2 : m ≤ 40)
+    (hsmall : |x.hi.toInt| < 2 ^ 52 * 2 ^ m) :
+    (arithmetic.impl_Div_rf64_for_rTwoFloat.div x f).Valid ∧
+    |(arithmetic.impl_Div_rf64_for_rTwoFloat.div x f).V * 2 ^ m - x.V| < 2 ^ m := by
+  have hP : (0 : Int) < 2 ^ m := by positivity
+  have hP2 : (2 : Int) ≤ 2 ^ m := by
+    calc (2 : Int) = 2 ^ 1 := by norm_num
+      _ ≤ 2 ^ m := pow_le_pow_right₀ (by norm_num) hm1
+  have hP40 : (2 : Int) ^ m ≤ 2 ^ 40 := pow_le_pow_right₀ (by norm_num) hm2
+  have hU : (0 : Int) < (unit : Int) := unit_pos_int
+  have hf0 : (2 : Int) ^ m * (unit : Int) ≠ 0 := ne_of_gt (mul_pos hP hU)
+  have hfi : f.toInt ≠ 0 := by rw [hf.2]; exact hf0
+  have hM : (2 : Int) ^ 100 ≤ (maxFin : Int) := two_pow_le_maxFin_int (by norm_num)
+  have hxv := IsV.of_valid hx
+  have hxl := two_pow_mul_abs_le_of_half_ulp hx.two_mul_abs_lo_le
+  -- cancel the unit in `rdI_err_gen`
+  have cancel : ∀ (T z : Int), 2 ^ 53 * |T * (2 ^ m * (unit : Int)) - z * (unit : Int)|
+      ≤ 2 ^ 52 * |2 ^ m * (unit : Int)| + |z * (unit : Int)| → 2 ^ 53 * |T * 2 ^ m - z| ≤ 2 ^ 52 * 2 ^ m + |z| := by
+    intro T z h
+    have e1 : T * (2 ^ m * (unit : Int)) - z * (unit : Int) = (T * 2 ^ m - z) * (unit : Int) := by ring
+    rw [e1, abs_mul_pos_right _ hU, abs_mul_pos_right _ hU, abs_mul_pos_right _ hU, abs_of_pos hP] at h
+    have : (2 ^ 53 * |T * 2 ^ m - z|) * (unit : Int) ≤ (2 ^ 52 * 2 ^ m + |z|) * (unit : Int) := by linarith
+    exact le_of_mul_le_mul_right this hU
+  -- the high quotient
+  set T := rdI (x.hi.toInt * (unit : Int)) (2 ^ m * (unit : Int)) with hT
+  have eT := cancel T _ (rdI_err_gen (x.hi.toInt * (unit : Int)) hf0)
+  have hTP : |T * 2 ^ m - x.hi.toInt| < 2 ^ m := by
+    generalize |T * 2 ^ m - x.hi.toInt| = E at *
+    generalize |x.hi.toInt| = A at *
+    generalize (2 : Int) ^ m = P at *
+    omega
+  have hTabs : |T| ≤ 2 ^ 52 := by
+    have t1 : |T| * 2 ^ m ≤ |T * 2 ^ m - x.hi.toInt| + |x.hi.toInt| := by
+      have := abs_add_le (T * 2 ^ m - x.hi.toInt) x.hi.toInt
+      rw [show T * 2 ^ m - x.hi.toInt + x.hi.toInt = T * 2 ^ m by ring, abs_mul_pos_right _ hP] at this
+      exact this
+    by_contra hc
+    have hc' : (2 ^ 52 + 1) * 2 ^ m ≤ |T| * 2 ^ m := mul_le_mul_of_nonneg_right (by omega) hP.le
+    rw [add_mul, one_mul] at hc'
+    generalize |T * 2 ^ m - x.hi.toInt| = E at *
+    generalize |x.hi.toInt| = A at *
+    generalize |T| * 2 ^ m = TP at *
+    generalize (2 : Int) ^ m = P at *
+    omega
+  have hTr : RepI T := repI_rdI _ hf0
+  have hth : IsVal (F64.div x.hi f) T := by
+    have := div_spec hx.1 hf.1 hfi (by
+      rw [hf.2, ← natAbs_rdI' _ hf0]
+      exact natAbs_le_of_abs_le (le_trans hTabs (le_trans (by norm_num) hM)))
+    rw [hf.2] at this
+    exact this
+  have hTPabs : |T * 2 ^ m| ≤ 2 ^ 92 := by
+    rw [abs_mul_pos_right _ hP]
+    calc |T| * 2 ^ m ≤ 2 ^ 52 * 2 ^ 40 := mul_le_mul hTabs hP40 hP.le (by norm_num)
+      _ = 2 ^ 92 := by norm_num
+  have hp := new_mul_isV_exact hth hf (q := T * 2 ^ m) (by ring) (repI_mul_pow2_iff.2 hTr)
+    (le_trans hTPabs (le_trans (by norm_num) hM))
+  have small_rep : ∀ z : Int, |z| < 2 ^ 42 → RepI z ∧ |z| ≤ (maxFin : Int) := by
+    intro z hz
+    refine ⟨rep_of_lt ?_, le_trans hz.le (le_trans (by norm_num) hM)⟩
+    have : (z.natAbs : Int) < 2 ^ 42 := by rw [Int.natCast_natAbs]; exact hz
+    have h2 : z.natAbs < 2 ^ 42 := by exact_mod_cast this
+    exact lt_trans h2 (by norm_num)
+  have hdhs : |x.hi.toInt - T * 2 ^ m| < 2 ^ 42 := by
+    rw [abs_sub_comm]; exact lt_of_lt_of_le hTP (le_trans hP40 (by norm_num))
+  have hdh : IsVal (F64.sub x.hi (TwoFloat.new_mul (F64.div x.hi f) f).hi) (x.hi.toInt - T * 2 ^ m) :=
+    hxv.1.sub_exact hp.1 (small_rep _ hdhs).1 (small_rep _ hdhs).2
+  have hdt : IsVal (F64.sub (F64.sub x.hi (TwoFloat.new_mul (F64.div x.hi f) f).hi)
+      (TwoFloat.new_mul (F64.div x.hi f) f).lo) (x.hi.toInt - T * 2 ^ m) := by
+    have := hdh.sub_exact hp.2 (by rw [sub_zero]; exact (small_rep _ hdhs).1)
+      (by rw [sub_zero]; exact (small_rep _ hdhs).2)
+    rwa [sub_zero] at this
+  have hxls : 2 * |x.lo.toInt| < 2 ^ m := by
+    generalize |x.lo.toInt| = A at *
+    generalize |x.hi.toInt| = B at *
+    generalize (2 : Int) ^ m = P at *
+    omega
+  have hds : |x.hi.toInt - T * 2 ^ m + x.lo.toInt| < 2 * 2 ^ m := by
+    have := abs_add_le (x.hi.toInt - T * 2 ^ m) x.lo.toInt
+    rw [abs_sub_comm] at this
+    generalize |x.hi.toInt - T * 2 ^ m + x.lo.toInt| = S at *
+    generalize |T * 2 ^ m - x.hi.toInt| = E at *
+    generalize |x.lo.toInt| = A at *
+    generalize (2 : Int) ^ m = P at *
+    omega
+  have hds' : |x.hi.toInt - T * 2 ^ m + x.lo.toInt| < 2 ^ 42 :=
+    lt_of_lt_of_le hds (by
+      calc 2 * (2 : Int) ^ m ≤ 2 * 2 ^ 40 := by linarith
+        _ ≤ 2 ^ 42 := by norm_num)
+  have hd' : IsVal (F64.add (F64.sub (F64.sub x.hi (TwoFloat.new_mul (F64.div x.hi f) f).hi)
+      (TwoFloat.new_mul (F64.div x.hi f) f).lo) x.lo) (x.hi.toInt - T * 2 ^ m + x.lo.toInt) :=
+    hdt.add_exact hxv.2 (small_rep _ hds').1 (small_rep _ hds').2
+  -- the low quotient
+  set L := rdI ((x.hi.toInt - T * 2 ^ m + x.lo.toInt) * (unit : Int)) (2 ^ m * (unit : Int)) with hL
+  have eL := cancel L _ (rdI_err_gen ((x.hi.toInt - T * 2 ^ m + x.lo.toInt) * (unit : Int)) hf0)
+  have hLP : |L * 2 ^ m - (x.hi.toInt - T * 2 ^ m + x.lo.toInt)| < 2 ^ m := by
+    generalize |L * 2 ^ m - (x.hi.toInt - T * 2 ^ m + x.lo.toInt)| = E at *
+    generalize |x.hi.toInt - T * 2 ^ m + x.lo.toInt| = S at *
+    generalize (2 : Int) ^ m = P at *
+    omega
+  have hLabs : |L| ≤ 2 := by
+    have t1 : |L| * 2 ^ m ≤ |L * 2 ^ m - (x.hi.toInt - T * 2 ^ m + x.lo.toInt)|
+        + |x.hi.toInt - T * 2 ^ m + x.lo.toInt| := by
+      have := abs_add_le (L * 2 ^ m - (x.hi.toInt - T * 2 ^ m + x.lo.toInt)) (x.hi.toInt - T * 2 ^ m + x.lo.toInt)
+      rw [show L * 2 ^ m - (x.hi.toInt - T * 2 ^ m + x.lo.toInt) + (x.hi.toInt - T * 2 ^ m + x.lo.toInt)
+        = L * 2 ^ m by ring, abs_mul_pos_right _ hP] at this
+      exact this
+    by_contra hc
+    have hc' : 3 * 2 ^ m ≤ |L| * 2 ^ m := mul_le_mul_of_nonneg_right (by omega) hP.le
+    generalize |L * 2 ^ m - (x.hi.toInt - T * 2 ^ m + x.lo.toInt)| = E at *
+    generalize |x.hi.toInt - T * 2 ^ m + x.lo.toInt| = S at *
+    generalize |L| * 2 ^ m = LP at *
+    generalize (2 : Int) ^ m = P at *
+    omega
+  have htl : IsVal (F64.div (F64.add (F64.sub (F64.sub x.hi (TwoFloat.new_mul (F64.div x.hi f) f).hi)
+      (TwoFloat.new_mul (F64.div x.hi f) f).lo) x.lo) f) L := by
+    have := div_spec hd'.1 hf.1 hfi (by
+      rw [hd'.2, hf.2, ← natAbs_rdI' _ hf0]
+      exact natAbs_le_of_abs_le (le_trans hLabs (le_trans (by norm_num) hM)))
+    rw [hd'.2, hf.2] at this
+    exact this
+  rw [div_tf_eq]
+  have hLn : L.natAbs ≤ 2 := by
+    have : (L.natAbs : Int) ≤ 2 := by rw [Int.natCast_natAbs]; exact hLabs
+    exact_mod_cast this
+  have hlog : Nat.log2 L.natAbs - 52 = 0 := by
+    by_cases h0 : L.natAbs = 0
+    · rw [h0]; rfl
+    · have : Nat.log2 L.natAbs < 52 := (Nat.log2_lt h0).2 (lt_of_le_of_lt hLn (by norm_num))
+      omega
+  have hf2 := fast_two_sum_words_of_dvd hth.1 htl.1 (div_WF _ _) (div_WF _ _)
+    (by rw [htl.2, hlog, pow_zero]; exact one_dvd _)
+    (by
+      rw [hth.2, htl.2]
+      apply rn53_natAbs_le_maxFin
+      have := abs_add_le T L
+      have e : (2 : Int) ^ 52 + 2 ≤ 2 ^ 100 := by norm_num
+      omega)
+  rw [hth.2, htl.2] at hf2
+  obtain ⟨-, pV, pValid, -⟩ := eft_package hf2.1 hf2.2 (fast_two_sum_WF _ _).1 (fast_two_sum_WF _ _).2
+  refine ⟨pValid, ?_⟩
+  rw [pV]
+  have e : (T + L) * 2 ^ m - x.V = L * 2 ^ m - (x.hi.toInt - T * 2 ^ m + x.lo.toInt) := by
+    unfold TwoFloat.V; ring
+  rw [e]; exact hLP
+
+/-- **`TwoFloat / f64` by `2^m` (`1 ≤ m ≤ 40`) over `ℝ`, ALL valid operands**: relative `u²(1 + 2u)` plus one unit
+`2^-1074` -/
+theorem div_pow2_gen {x : TwoFloat} {f : F64} {m : ℕ} (hx : VW x)
+    (hf : IsVal f (2 ^ m * (unit : Int))) (hm1 : 1 ≤ m) (hm2 : m ≤ 40) :
+    VW (arithmetic.impl_Div_f64_for_TwoFloat.div x f) ∧
+    |rv (arithmetic.impl_Div_f64_for_TwoFloat.div x f) - rv x / 2 ^ m|
+      ≤ 1001 / 1000 / 2 ^ 106 * |rv x / 2 ^ m| + 1 / 2 ^ 1074 := by
+  by_cases hs : |x.hi.toInt| < 2 ^ 52 * 2 ^ m
+  · show VW (arithmetic.impl_Div_rf64_for_rTwoFloat.div x f) ∧
+      |rv (arithmetic.impl_Div_rf64_for_rTwoFloat.div x f) - rv x / 2 ^ m|
+        ≤ 1001 / 1000 / 2 ^ 106 * |rv x / 2 ^ m| + 1 / 2 ^ 1074
+    obtain ⟨hV, hb⟩ := div_pow2_tiny_int hx.1 hx.2 hf hm1 hm2 hs
+    refine ⟨⟨hV, div_tf_WF x f⟩, ?_⟩
+    generalize arithmetic.impl_Div_rf64_for_rTwoFloat.div x f = R at *
+    have hr : |(R.V : ℝ) * 2 ^ m - (x.V : ℝ)| < 2 ^ m := by exact_mod_cast hb
+    have hP : (0 : ℝ) < 2 ^ m := by positivity
+    have h1 : |rv R - rv x / 2 ^ m| ≤ 1 / 2 ^ 1074 := by
+      unfold rv
+      have e : (R.V : ℝ) / 2 ^ 1074 - (x.V : ℝ) / 2 ^ 1074 / 2 ^ m
+          = ((R.V : ℝ) * 2 ^ m - (x.V : ℝ)) / (2 ^ 1074 * 2 ^ m) := by field_simp
+      rw [e, abs_div, abs_of_pos (by positivity : (0 : ℝ) < 2 ^ 1074 * 2 ^ m), div_le_div_iff₀ (by positivity)
+        (by positivity)]
+      nlinarith [abs_nonneg ((R.V : ℝ) * 2 ^ m - (x.V : ℝ))]
+    have h2 : (0 : ℝ) ≤ 1001 / 1000 / 2 ^ 106 * |rv x / 2 ^ m| := by positivity
+    linarith
+  · have hl : 2 ^ 52 * 2 ^ m ≤ x.hi.toInt.natAbs := by
+      have h := not_lt.1 hs
+      rw [← Int.natCast_natAbs] at h
+      exact_mod_cast h
+    obtain ⟨hV, hb⟩ := div_pow2_rv hx hf hm1 (dvd_hi_of_large hx.2 hl)
+    refine ⟨hV, le_trans hb ?_⟩
+    have : (1 : ℝ) / 2 ^ 1075 ≤ 1 / 2 ^ 1074 := by
+      apply one_div_le_one_div_of_le (by positivity)
+      exact pow_le_pow_right₀ (by norm_num) (by norm_num)
+    linarith
+
 end divpow
+
+/-! ## `exp2`: real-number cores -/
+
+theorem log_two_range : 693 / 1000 ≤ Real.log 2 ∧ Real.log 2 ≤ 6932 / 10000 := by
+  obtain ⟨h1, h2⟩ := log_two_encl
+  have a : (693 / 1000 : ℚ) ≤ ln2Lo := by decide +kernel
+  have b : ln2Hi ≤ (6932 / 10000 : ℚ) := by decide +kernel
+  have a' := (Rat.cast_le (K := ℝ)).2 a
+  have b' := (Rat.cast_le (K := ℝ)).2 b
+  push_cast at a' b'
+  constructor <;> linarith
+
+/-- the reduced argument `r = ((x − k)·LN_2)/512` against `ρ = δ·log 2/512` -/
+theorem reduce_real {δ s lam m r : ℝ} (hδ : |δ| ≤ 501 / 1000)
+    (hs : |s - δ| ≤ 1 / 2 ^ 105 * |δ|)
+    (hl : |Real.log 2 - lam| ≤ |Real.log 2| / 2 ^ 107)
+    (hm : |m - s * lam| ≤ 7 / 2 ^ 106 * |s * lam| + 1 / 2 ^ 950)
+    (hr : |r - m / 2 ^ 9| ≤ 1001 / 1000 / 2 ^ 106 * |m / 2 ^ 9| + 1 / 2 ^ 1074) :
+    |r - δ * Real.log 2 / 512| ≤ 1 / 100 / 2 ^ 106 ∧ |r| ≤ 1 / 1024 := by
+  obtain ⟨l1, l2⟩ := log_two_range
+  have hl0 : 0 < Real.log 2 := by linarith
+  rw [abs_of_pos hl0, abs_sub_comm] at hl
+  have hlam : |lam| ≤ 6933 / 10000 := by
+    have := abs_sub_abs_le_abs_sub lam (Real.log 2)
+    rw [abs_of_pos hl0] at this
+    have : Real.log 2 / 2 ^ 107 ≤ 1 / 10000 := by
+      rw [div_le_iff₀ (by positivity)]; norm_num; linarith
+    linarith
+  have hsabs : |s| ≤ 502 / 1000 := by
+    have := abs_sub_abs_le_abs_sub s δ
+    have h2 : (1 : ℝ) / 2 ^ 105 * |δ| ≤ 1 / 2 ^ 105 * (501 / 1000) := mul_le_mul_of_nonneg_left hδ (by positivity)
+    have e : (1 : ℝ) / 2 ^ 105 * (501 / 1000) ≤ 1 / 1000 := by norm_num
+    linarith
+  have hsl : |s * lam| ≤ 35 / 100 := by
+    rw [abs_mul]
+    calc |s| * |lam| ≤ 502 / 1000 * (6933 / 10000) := mul_le_mul hsabs hlam (abs_nonneg _) (by norm_num)
+      _ ≤ 35 / 100 := by norm_num
+  have h1 : |s * lam - δ * Real.log 2| ≤ 9 / 10 / 2 ^ 106 := by
+    have e : s * lam - δ * Real.log 2 = (s - δ) * lam + δ * (lam - Real.log 2) := by ring
+    rw [e]
+    have t1 : |(s - δ) * lam| ≤ 1 / 2 ^ 105 * (501 / 1000) * (6933 / 10000) := by
+      rw [abs_mul]
+      exact mul_le_mul (le_trans hs (mul_le_mul_of_nonneg_left hδ (by positivity))) hlam (abs_nonneg _)
+        (by positivity)
+    have t2 : |δ * (lam - Real.log 2)| ≤ 501 / 1000 * (6932 / 10000 / 2 ^ 107) := by
+      rw [abs_mul]
+      refine mul_le_mul hδ (le_trans hl ?_) (abs_nonneg _) (by norm_num)
+      exact div_le_div_of_nonneg_right l2 (by positivity)
+    have := abs_add_le ((s - δ) * lam) (δ * (lam - Real.log 2))
+    have e2 : (1 : ℝ) / 2 ^ 105 * (501 / 1000) * (6933 / 10000) + 501 / 1000 * (6932 / 10000 / 2 ^ 107)
+        ≤ 9 / 10 / 2 ^ 106 := by norm_num
+    linarith
+  have h2 : |m - δ * Real.log 2| ≤ 336 / 100 / 2 ^ 106 := by
+    have := abs_add_le (m - s * lam) (s * lam - δ * Real.log 2)
+    rw [show m - s * lam + (s * lam - δ * Real.log 2) = m - δ * Real.log 2 by ring] at this
+    have h3 := mul_le_mul_of_nonneg_left hsl (by positivity : (0 : ℝ) ≤ 7 / 2 ^ 106)
+    have e : (7 : ℝ) / 2 ^ 106 * (35 / 100) + 1 / 2 ^ 950 + 9 / 10 / 2 ^ 106 ≤ 336 / 100 / 2 ^ 106 := by norm_num
+    linarith
+  have hdl : |δ * Real.log 2| ≤ 3473 / 10000 := by
+    rw [abs_mul, abs_of_pos hl0]
+    calc |δ| * Real.log 2 ≤ 501 / 1000 * (6932 / 10000) := mul_le_mul hδ l2 hl0.le (by norm_num)
+      _ ≤ 3473 / 10000 := by norm_num
+  have hmabs : |m| ≤ 3474 / 10000 := by
+    have := abs_sub_abs_le_abs_sub m (δ * Real.log 2)
+    have e : (336 : ℝ) / 100 / 2 ^ 106 + 3473 / 10000 ≤ 3474 / 10000 := by norm_num
+    linarith
+  have hm9 : |m / 2 ^ 9| ≤ 3474 / 10000 / 512 := by
+    rw [abs_div, abs_of_pos (by positivity : (0 : ℝ) < 2 ^ 9)]
+    have : (2 : ℝ) ^ 9 = 512 := by norm_num
+    rw [this]
+    exact div_le_div_of_nonneg_right hmabs (by norm_num)
+  have h4 : |r - m / 2 ^ 9| ≤ 1 / 1000 / 2 ^ 106 := by
+    have h3 := mul_le_mul_of_nonneg_left hm9 (by positivity : (0 : ℝ) ≤ 1001 / 1000 / 2 ^ 106)
+    have e : (1001 : ℝ) / 1000 / 2 ^ 106 * (3474 / 10000 / 512) + 1 / 2 ^ 1074 ≤ 1 / 1000 / 2 ^ 106 := by norm_num
+    linarith
+  have h5 : |m / 2 ^ 9 - δ * Real.log 2 / 512| ≤ 336 / 100 / 2 ^ 106 / 512 := by
+    have e : m / 2 ^ 9 - δ * Real.log 2 / 512 = (m - δ * Real.log 2) / 512 := by norm_num; ring
+    rw [e, abs_div, abs_of_pos (by norm_num : (0 : ℝ) < 512)]
+    exact div_le_div_of_nonneg_right h2 (by norm_num)
+  have h6 : |r - δ * Real.log 2 / 512| ≤ 1 / 100 / 2 ^ 106 := by
+    have := abs_add_le (r - m / 2 ^ 9) (m / 2 ^ 9 - δ * Real.log 2 / 512)
+    rw [show r - m / 2 ^ 9 + (m / 2 ^ 9 - δ * Real.log 2 / 512) = r - δ * Real.log 2 / 512 by ring] at this
+    have e : (1 : ℝ) / 1000 / 2 ^ 106 + 336 / 100 / 2 ^ 106 / 512 ≤ 1 / 100 / 2 ^ 106 := by norm_num
+    linarith
+  refine ⟨h6, ?_⟩
+  have := abs_sub_abs_le_abs_sub r (δ * Real.log 2 / 512)
+  have h7 : |δ * Real.log 2 / 512| ≤ 3473 / 10000 / 512 := by
+    rw [abs_div, abs_of_pos (by norm_num : (0 : ℝ) < 512)]
+    exact div_le_div_of_nonneg_right hdl (by norm_num)
+  have e : (1 : ℝ) / 100 / 2 ^ 106 + 3473 / 10000 / 512 ≤ 1 / 1024 := by norm_num
+  linarith
+
+/-- the last two Horner steps `a₁ = t·a₂ + 1`, `a₀ = t·a₁ + 1` (coefficients exactly `1`) -/
+theorem horner_tail_real {t a2 A2 m1 a1 m0 a0 : ℝ} (ht : |t| ≤ 1 / 1024)
+    (ha2 : |a2 - A2| ≤ 4 / 2 ^ 106) (hA1 : 1 / 4 ≤ A2) (hA2 : A2 ≤ 1)
+    (hm1 : |m1 - t * a2| ≤ 7 / 2 ^ 106 * |t * a2| + 1 / 2 ^ 950)
+    (hn1 : |a1 - (m1 + 1)| ≤ cA * |m1 + 1|)
+    (hm0 : |m0 - t * a1| ≤ 7 / 2 ^ 106 * |t * a1| + 1 / 2 ^ 950)
+    (hn0 : |a0 - (m0 + 1)| ≤ cA * |m0 + 1|) :
+    |a0 - (t * (t * A2 + 1) + 1)| ≤ 303 / 100 / 2 ^ 106 := by
+  have ha2abs : |a2| ≤ 101 / 100 := by
+    have := abs_sub_abs_le_abs_sub a2 A2
+    rw [abs_of_nonneg (by linarith : (0 : ℝ) ≤ A2)] at this
+    have e : (4 : ℝ) / 2 ^ 106 ≤ 1 / 100 := by norm_num
+    linarith
+  have hta2 : |t * a2| ≤ 1 / 1024 * (101 / 100) := by
+    rw [abs_mul]; exact mul_le_mul ht ha2abs (abs_nonneg _) (by norm_num)
+  have d1 : |m1 - t * A2| ≤ 2 / 100 / 2 ^ 106 := by
+    have h1 := abs_add_le (m1 - t * a2) (t * a2 - t * A2)
+    rw [show m1 - t * a2 + (t * a2 - t * A2) = m1 - t * A2 by ring] at h1
+    have h2 : |t * a2 - t * A2| ≤ 1 / 1024 * (4 / 2 ^ 106) := by
+      rw [← mul_sub, abs_mul]; exact mul_le_mul ht ha2 (abs_nonneg _) (by norm_num)
+    have h3 := mul_le_mul_of_nonneg_left hta2 (by positivity : (0 : ℝ) ≤ 7 / 2 ^ 106)
+    have e : (7 : ℝ) / 2 ^ 106 * (1 / 1024 * (101 / 100)) + 1 / 2 ^ 950 + 1 / 1024 * (4 / 2 ^ 106)
+        ≤ 2 / 100 / 2 ^ 106 := by norm_num
+    linarith
+  have htA2 : |t * A2| ≤ 1 / 1024 := by
+    rw [abs_mul, abs_of_nonneg (by linarith : (0 : ℝ) ≤ A2)]
+    calc |t| * A2 ≤ 1 / 1024 * 1 := mul_le_mul ht hA2 (by linarith) (by norm_num)
+      _ = 1 / 1024 := by ring
+  have hm1abs : |m1| ≤ 1 / 1000 := by
+    have := abs_sub_abs_le_abs_sub m1 (t * A2)
+    have e : (2 : ℝ) / 100 / 2 ^ 106 + 1 / 1024 ≤ 1 / 1000 := by norm_num
+    linarith
+  have hm11 : |m1 + 1| ≤ 1001 / 1000 := by
+    have := abs_add_le m1 1; rw [abs_one] at this; linarith
+  have d2 : |a1 - (t * A2 + 1)| ≤ 3035 / 1000 / 2 ^ 106 := by
+    have h1 := abs_add_le (a1 - (m1 + 1)) (m1 - t * A2)
+    rw [show a1 - (m1 + 1) + (m1 - t * A2) = a1 - (t * A2 + 1) by ring] at h1
+    have h3 : cA * |m1 + 1| ≤ 301 / 100 / 2 ^ 106 * (1001 / 1000) :=
+      mul_le_mul cA_le' hm11 (abs_nonneg _) (by positivity)
+    have e : (301 : ℝ) / 100 / 2 ^ 106 * (1001 / 1000) + 2 / 100 / 2 ^ 106 ≤ 3035 / 1000 / 2 ^ 106 := by norm_num
+    linarith
+  have ha1abs : |a1| ≤ 1002 / 1000 := by
+    have h1 := abs_sub_abs_le_abs_sub a1 (t * A2 + 1)
+    have h2 := abs_add_le (t * A2) 1
+    rw [abs_one] at h2
+    have e : (3035 : ℝ) / 1000 / 2 ^ 106 + 1 / 1024 + 1 ≤ 1002 / 1000 := by norm_num
+    linarith
+  have hta1 : |t * a1| ≤ 1 / 1024 * (1002 / 1000) := by
+    rw [abs_mul]; exact mul_le_mul ht ha1abs (abs_nonneg _) (by norm_num)
+  have d3 : |m0 - t * (t * A2 + 1)| ≤ 1 / 100 / 2 ^ 106 := by
+    have h1 := abs_add_le (m0 - t * a1) (t * a1 - t * (t * A2 + 1))
+    rw [show m0 - t * a1 + (t * a1 - t * (t * A2 + 1)) = m0 - t * (t * A2 + 1) by ring] at h1
+    have h2 : |t * a1 - t * (t * A2 + 1)| ≤ 1 / 1024 * (3035 / 1000 / 2 ^ 106) := by
+      rw [← mul_sub, abs_mul]; exact mul_le_mul ht d2 (abs_nonneg _) (by norm_num)
+    have h3 := mul_le_mul_of_nonneg_left hta1 (by positivity : (0 : ℝ) ≤ 7 / 2 ^ 106)
+    have e : (7 : ℝ) / 2 ^ 106 * (1 / 1024 * (1002 / 1000)) + 1 / 2 ^ 950 + 1 / 1024 * (3035 / 1000 / 2 ^ 106)
+        ≤ 1 / 100 / 2 ^ 106 := by norm_num
+    linarith
+  have hm0abs : |m0| ≤ 1 / 1000 := by
+    have h1 := abs_sub_abs_le_abs_sub m0 (t * (t * A2 + 1))
+    have h2 : |t * (t * A2 + 1)| ≤ 1 / 1024 * (1 / 1024 + 1) := by
+      rw [abs_mul]
+      refine mul_le_mul ht ?_ (abs_nonneg _) (by norm_num)
+      have := abs_add_le (t * A2) 1
+      rw [abs_one] at this; linarith
+    have e : (1 : ℝ) / 100 / 2 ^ 106 + 1 / 1024 * (1 / 1024 + 1) ≤ 1 / 1000 := by norm_num
+    linarith
+  have hm01 : |m0 + 1| ≤ 1001 / 1000 := by
+    have := abs_add_le m0 1; rw [abs_one] at this; linarith
+  have h1 := abs_add_le (a0 - (m0 + 1)) (m0 - t * (t * A2 + 1))
+  rw [show a0 - (m0 + 1) + (m0 - t * (t * A2 + 1)) = a0 - (t * (t * A2 + 1) + 1) by ring] at h1
+  have h3 : cA * |m0 + 1| ≤ 301 / 100 / 2 ^ 106 * (1001 / 1000) :=
+    mul_le_mul cA_le' hm01 (abs_nonneg _) (by positivity)
+  have e : (301 : ℝ) / 100 / 2 ^ 106 * (1001 / 1000) + 1 / 100 / 2 ^ 106 ≤ 303 / 100 / 2 ^ 106 := by norm_num
+  linarith
+
+/-- Taylor truncation at 12 terms, `|t| ≤ 1/1024` -/
+theorem exp_taylor12 {t : ℝ} (ht : |t| ≤ 1 / 1024) :
+    |Real.exp t - ∑ k ∈ Finset.range 12, t ^ k / (k.factorial : ℝ)| ≤ 1 / 2 ^ 140 := by
+  have hb := Real.exp_bound (le_trans ht (by norm_num)) (n := 12) (by norm_num)
+  refine le_trans hb ?_
+  have h12 : |t| ^ 12 ≤ (1 / 1024) ^ 12 := pow_le_pow_left₀ (abs_nonneg _) ht 12
+  have e12 : ((12 : ℕ).factorial : ℝ) = 479001600 := by norm_num [Nat.factorial]
+  have es : ((Nat.succ 12 : ℕ) : ℝ) = 13 := by norm_num
+  rw [e12, es]
+  calc |t| ^ 12 * (13 / (479001600 * ((12 : ℕ) : ℝ))) ≤ (1 / 1024) ^ 12 * (13 / (479001600 * ((12 : ℕ) : ℝ))) :=
+        mul_le_mul_of_nonneg_right h12 (by positivity)
+    _ ≤ 1 / 2 ^ 140 := by norm_num
+
+/-- one squaring: relative error `ε ↦ 2ε + 7.01u²` -/
+theorem sq_step_real {p p' E ε : ℝ} (hE : 0 < E) (hp : |p - E| ≤ ε * E) (hε0 : 0 ≤ ε) (hε : ε ≤ 1 / 2 ^ 92)
+    (hp' : |p' - p * p| ≤ 7 / 2 ^ 106 * |p * p|) :
+    |p' - E * E| ≤ (2 * ε + 701 / 100 / 2 ^ 106) * (E * E) := by
+  refine prod_rel_gen hE hE hp hp hp' hε0 (by positivity) ?_
+  have h1 : ε * ε ≤ 1 / 2 ^ 92 * ε := mul_le_mul_of_nonneg_right hε hε0
+  have h2 : ε * ε ≤ 1 / 2 ^ 92 * (1 / 2 ^ 92) := mul_le_mul hε hε hε0 (by positivity)
+  have e : (7 : ℝ) / 2 ^ 106 * (1 + (ε + ε + ε * ε)) = 7 / 2 ^ 106 + 7 / 2 ^ 106 * (ε + ε + ε * ε) := by ring
+  have h3 : (7 : ℝ) / 2 ^ 106 * (ε + ε + ε * ε) ≤ 7 / 2 ^ 106 * (1 / 2 ^ 92 + 1 / 2 ^ 92 + 1 / 2 ^ 92 * (1 / 2 ^ 92)) :=
+    mul_le_mul_of_nonneg_left (by linarith) (by positivity)
+  have e2 : (1 : ℝ) / 2 ^ 92 * (1 / 2 ^ 92)
+      + 7 / 2 ^ 106 * (1 / 2 ^ 92 + 1 / 2 ^ 92 + 1 / 2 ^ 92 * (1 / 2 ^ 92)) ≤ 1 / 100 / 2 ^ 106 := by norm_num
+  linarith
+
+/-! ## `exp2`: the polynomial -/
+
+section poly
+open F64 TwoFloat
+
+/-- the Horner iterates of `polynomial!(r, FRAC_FACT[0..12])` -/
+def hp2 (r : TwoFloat) : ℕ → TwoFloat
+  | 0 => explog.FRAC_FACT.getD 11 default
+  | j + 1 => arithmetic.impl_Add_rTwoFloat_for_TwoFloat.add
+      (arithmetic.impl_Mul_TwoFloat_for_TwoFloat.mul r (hp2 r j)) (explog.FRAC_FACT.getD (10 - j) default)
+
+theorem polyFold_eq2 (r : TwoFloat) :
+    polyFold (List.take 12 (List.drop 0 explog.FRAC_FACT))
+      (fun a n => arithmetic.impl_Add_rTwoFloat_for_TwoFloat.add
+        (arithmetic.impl_Mul_TwoFloat_for_TwoFloat.mul r a) n) = hp2 r 11 := rfl
+
+/-- the exact Horner iterates -/
+noncomputable def PR2 (t : ℝ) : ℕ → ℝ
+  | 0 => 1 / ((11 : ℕ).factorial : ℝ)
+  | j + 1 => t * PR2 t j + 1 / (((10 - j : ℕ)).factorial : ℝ)
+
+theorem fact_step2 (j : ℕ) (hj : j ≤ 8) :
+    (1 : ℝ) / (((11 - j : ℕ)).factorial : ℝ) ≤ 1 / (((10 - j : ℕ)).factorial : ℝ) / 2 ∧
+    (1 : ℝ) / (((10 - j : ℕ)).factorial : ℝ) ≤ 1 / 2 ∧ (0 : ℝ) < 1 / (((11 - j : ℕ)).factorial : ℝ) := by
+  have e : 11 - j = (10 - j) + 1 := by omega
+  have h2 : 2 ≤ 10 - j := by omega
+  have hf : (2 : ℝ) ≤ (((10 - j : ℕ)).factorial : ℝ) := by
+    have : (10 - j : ℕ) ≤ (10 - j).factorial := Nat.self_le_factorial _
+    exact_mod_cast le_trans h2 this
+  have hpos : (0 : ℝ) < (((10 - j : ℕ)).factorial : ℝ) := by linarith
+  refine ⟨?_, ?_, by positivity⟩
+  · rw [e, Nat.factorial_succ]
+    push_cast
+    have h3 : (2 : ℝ) ≤ ((10 - j : ℕ) : ℝ) + 1 := by
+      have : (2 : ℝ) ≤ ((10 - j : ℕ) : ℝ) := by exact_mod_cast h2
+      linarith
+    rw [div_div, div_le_div_iff₀ (by positivity) (by positivity)]
+    nlinarith
+  · rw [div_le_div_iff₀ hpos (by norm_num)]; linarith
+
+/-- **the Horner loop of `exp2`** down to the coefficient `1/2!`: every iterate is a valid pair within `4u²`
+(absolute) of the exact Horner value -/
+theorem horner_inv2 {y : TwoFloat} (hy : VW y) (ht : |rv y| ≤ 1 / 128) (j : ℕ) (hj : j ≤ 9) :
+    VW (hp2 y j) ∧ |rv (hp2 y j) - PR2 (rv y) j| ≤ 4 / 2 ^ 106 ∧
+      1 / (((11 - j : ℕ)).factorial : ℝ) / 2 ≤ PR2 (rv y) j ∧ PR2 (rv y) j ≤ 2 * (1 / (((11 - j : ℕ)).factorial : ℝ)) := by
+  induction j with
+  | zero =>
+    obtain ⟨h1, h2, h3⟩ := FRAC_FACT_correct 11 (by norm_num)
+    have hp0 : (0 : ℝ) < 1 / ((11 : ℕ).factorial : ℝ) := by positivity
+    refine ⟨⟨h1, h2⟩, ?_, ?_, ?_⟩
+    · show |rv (explog.FRAC_FACT.getD 11 default) - 1 / ((11 : ℕ).factorial : ℝ)| ≤ _
+      refine le_trans h3 ?_
+      have : (1 : ℝ) / ((11 : ℕ).factorial : ℝ) ≤ 1 := by
+        rw [div_le_one (by positivity)]; exact_mod_cast Nat.one_le_iff_ne_zero.2 (Nat.factorial_ne_zero 11)
+      calc 1 / ((11 : ℕ).factorial : ℝ) / 2 ^ 107 ≤ 1 / 2 ^ 107 :=
+            div_le_div_of_nonneg_right this (by positivity)
+        _ ≤ 4 / 2 ^ 106 := by norm_num
+    · show _ ≤ 1 / ((11 : ℕ).factorial : ℝ); linarith
+    · show 1 / ((11 : ℕ).factorial : ℝ) ≤ _; linarith
+  | succ j ih =>
+    obtain ⟨hvw, ha, hA1, hA2⟩ := ih (by omega)
+    obtain ⟨f1, f2, f3⟩ := fact_step2 j (by omega)
+    obtain ⟨c1, c2, c3⟩ := FRAC_FACT_correct (10 - j) (by omega)
+    have habsA : |PR2 (rv y) j| ≤ 1 := by
+      rw [abs_of_nonneg (by linarith)]; linarith
+    have habsa : |rv (hp2 y j)| ≤ 2 := by
+      have := abs_sub_abs_le_abs_sub (rv (hp2 y j)) (PR2 (rv y) j)
+      have e : (4 : ℝ) / 2 ^ 106 ≤ 1 := by norm_num
+      linarith
+    have hprod : |rv y * rv (hp2 y j)| ≤ 2 ^ 1019 := by
+      rw [abs_mul]
+      calc |rv y| * |rv (hp2 y j)| ≤ 1 / 128 * 2 := mul_le_mul ht habsa (abs_nonneg _) (by norm_num)
+        _ ≤ 2 ^ 1019 := by norm_num
+    obtain ⟨mvw, hm⟩ := mul_rv hy hvw hprod
+    have hmabs : |rv (arithmetic.impl_Mul_TwoFloat_for_TwoFloat.mul y (hp2 y j))| ≤ 2 ^ 1000 := by
+      have := abs_sub_abs_le_abs_sub (rv (arithmetic.impl_Mul_TwoFloat_for_TwoFloat.mul y (hp2 y j)))
+        (rv y * rv (hp2 y j))
+      have hp2' : |rv y * rv (hp2 y j)| ≤ 1 / 64 := by
+        rw [abs_mul]
+        calc |rv y| * |rv (hp2 y j)| ≤ 1 / 128 * 2 := mul_le_mul ht habsa (abs_nonneg _) (by norm_num)
+          _ = 1 / 64 := by norm_num
+      have := mul_le_mul_of_nonneg_left hp2' (by positivity : (0 : ℝ) ≤ 7 / 2 ^ 106)
+      have e : (7 : ℝ) / 2 ^ 106 * (1 / 64) + 1 / 2 ^ 950 + 1 / 64 ≤ 2 ^ 1000 := by norm_num
+      linarith
+    have hCabs : |rv (explog.FRAC_FACT.getD (10 - j) default)| ≤ 2 ^ 1000 := by
+      have := abs_sub_abs_le_abs_sub (rv (explog.FRAC_FACT.getD (10 - j) default))
+        (1 / (((10 - j : ℕ)).factorial : ℝ))
+      have hpos : (0 : ℝ) < 1 / (((10 - j : ℕ)).factorial : ℝ) := by positivity
+      rw [abs_of_pos hpos] at this
+      have : 1 / (((10 - j : ℕ)).factorial : ℝ) / 2 ^ 107 ≤ 1 := by
+        refine le_trans (div_le_div_of_nonneg_right f2 (by positivity)) (by norm_num)
+      have e : (1 : ℝ) / 2 + 1 ≤ 2 ^ 1000 := by norm_num
+      linarith
+    obtain ⟨nvw, hn⟩ := add_rv mvw ⟨c1, c2⟩ hmabs hCabs
+    have key := horner_step_real ht hA1 hA2 f3 f1 f2 ha hm c3 hn
+    refine ⟨nvw, ?_, ?_, ?_⟩
+    · exact key.1
+    · have e : 11 - (j + 1) = 10 - j := by omega
+      rw [e]; exact key.2.1
+    · have e : 11 - (j + 1) = 10 - j := by omega
+      rw [e]; exact key.2.2
+
+theorem PR2_sum (t : ℝ) :
+    t * (t * PR2 t 9 + 1) + 1 = ∑ k ∈ Finset.range 12, t ^ k / (k.factorial : ℝ) := by
+  simp only [PR2, Finset.sum_range_succ, Finset.sum_range_zero]
+  norm_num [Nat.factorial]
+  ring
+
+theorem FF_one (i : ℕ) (hi : i < 2) : VW (explog.FRAC_FACT.getD i default) ∧ rv (explog.FRAC_FACT.getD i default) = 1 := by
+  have h : ∀ i < 2, (explog.FRAC_FACT.getD i default).Valid ∧ (explog.FRAC_FACT.getD i default).WF ∧
+      (explog.FRAC_FACT.getD i default).V = 2 ^ 1074 := by decide +kernel
+  obtain ⟨h1, h2, h3⟩ := h i hi
+  refine ⟨⟨h1, h2⟩, ?_⟩
+  unfold rv; rw [h3]
+  simp only [Int.cast_pow, Int.cast_ofNat]
+  exact div_self (by positivity : ((2 : ℝ) ^ 1074) ≠ 0)
+
+/-- **the polynomial of `exp2`**: for a valid `r` with `|r| ≤ 1/1024` the Horner value is a valid pair within
+`3.04u²` (absolute) of `e^r` -/
+theorem horner2_bound {y : TwoFloat} (hy : VW y) (ht : |rv y| ≤ 1 / 1024) :
+    VW (hp2 y 11) ∧ |rv (hp2 y 11) - Real.exp (rv y)| ≤ 304 / 100 / 2 ^ 106 := by
+  have ht' : |rv y| ≤ 1 / 128 := le_trans ht (by norm_num)
+  obtain ⟨pvw, hpe, hP1, hP2⟩ := horner_inv2 hy ht' 9 (le_refl _)
+  have e2 : ((11 - 9 : ℕ).factorial : ℝ) = 2 := by norm_num [Nat.factorial]
+  rw [e2] at hP1 hP2
+  have hP1' : (1 : ℝ) / 4 ≤ PR2 (rv y) 9 := by linarith
+  have hP2' : PR2 (rv y) 9 ≤ 1 := by linarith
+  obtain ⟨o1, ov1⟩ := FF_one 1 (by norm_num)
+  obtain ⟨o0, ov0⟩ := FF_one 0 (by norm_num)
+  have small : ∀ z : TwoFloat, |rv z| ≤ 2 → |rv y * rv z| ≤ 1 / 512 := by
+    intro z hz
+    rw [abs_mul]
+    calc |rv y| * |rv z| ≤ 1 / 1024 * 2 := mul_le_mul ht hz (abs_nonneg _) (by norm_num)
+      _ = 1 / 512 := by norm_num
+  have mulb : ∀ z : TwoFloat, VW z → |rv z| ≤ 2 →
+      VW (arithmetic.impl_Mul_TwoFloat_for_TwoFloat.mul y z) ∧
+      |rv (arithmetic.impl_Mul_TwoFloat_for_TwoFloat.mul y z) - rv y * rv z| ≤ 7 / 2 ^ 106 * |rv y * rv z| + 1 / 2 ^ 950 ∧
+      |rv (arithmetic.impl_Mul_TwoFloat_for_TwoFloat.mul y z)| ≤ 1 / 256 := by
+    intro z hz hzb
+    have hs := small z hzb
+    obtain ⟨v, hm⟩ := mul_rv hy hz (le_trans hs (by norm_num))
+    refine ⟨v, hm, ?_⟩
+    have := abs_sub_abs_le_abs_sub (rv (arithmetic.impl_Mul_TwoFloat_for_TwoFloat.mul y z)) (rv y * rv z)
+    have h3 := mul_le_mul_of_nonneg_left hs (by positivity : (0 : ℝ) ≤ 7 / 2 ^ 106)
+    have e : (7 : ℝ) / 2 ^ 106 * (1 / 512) + 1 / 2 ^ 950 + 1 / 512 ≤ 1 / 256 := by norm_num
+    linarith
+  have hpabs : |rv (hp2 y 9)| ≤ 2 := by
+    have := abs_sub_abs_le_abs_sub (rv (hp2 y 9)) (PR2 (rv y) 9)
+    rw [abs_of_nonneg (by linarith : (0 : ℝ) ≤ PR2 (rv y) 9)] at this
+    have e : (4 : ℝ) / 2 ^ 106 ≤ 1 := by norm_num
+    linarith
+  -- step 10
+  obtain ⟨m1vw, hm1, m1b⟩ := mulb _ pvw hpabs
+  obtain ⟨a1vw, hn1⟩ := add_rv m1vw o1 (le_trans m1b (by norm_num)) (by rw [ov1]; norm_num)
+  rw [ov1] at hn1
+  have ha1abs : |rv (hp2 y 10)| ≤ 2 := by
+    show |rv (arithmetic.impl_Add_TwoFloat_for_TwoFloat.add
+      (arithmetic.impl_Mul_TwoFloat_for_TwoFloat.mul y (hp2 y 9)) (explog.FRAC_FACT.getD 1 default))| ≤ 2
+    have h1 := abs_sub_abs_le_abs_sub (rv (arithmetic.impl_Add_TwoFloat_for_TwoFloat.add
+      (arithmetic.impl_Mul_TwoFloat_for_TwoFloat.mul y (hp2 y 9)) (explog.FRAC_FACT.getD 1 default)))
+      (rv (arithmetic.impl_Mul_TwoFloat_for_TwoFloat.mul y (hp2 y 9)) + 1)
+    have h2 := abs_add_le (rv (arithmetic.impl_Mul_TwoFloat_for_TwoFloat.mul y (hp2 y 9))) 1
+    rw [abs_one] at h2
+    have h3 : |rv (arithmetic.impl_Mul_TwoFloat_for_TwoFloat.mul y (hp2 y 9)) + 1| ≤ 257 / 256 := by linarith
+    have h4 : cA * |rv (arithmetic.impl_Mul_TwoFloat_for_TwoFloat.mul y (hp2 y 9)) + 1| ≤ 4 / 2 ^ 106 * (257 / 256) :=
+      mul_le_mul cA_le h3 (abs_nonneg _) (by positivity)
+    have e : (4 : ℝ) / 2 ^ 106 * (257 / 256) + 257 / 256 ≤ 2 := by norm_num
+    linarith
+  have a1vw' : VW (hp2 y 10) := a1vw
+  -- step 11
+  obtain ⟨m0vw, hm0, m0b⟩ := mulb _ a1vw' ha1abs
+  obtain ⟨a0vw, hn0⟩ := add_rv m0vw o0 (le_trans m0b (by norm_num)) (by rw [ov0]; norm_num)
+  rw [ov0] at hn0
+  refine ⟨a0vw, ?_⟩
+  have core := horner_tail_real (a1 := rv (hp2 y 10)) (a0 := rv (hp2 y 11)) ht hpe hP1' hP2' hm1 hn1 hm0 hn0
+  rw [PR2_sum] at core
+  have tay := exp_taylor12 ht
+  have h1 := abs_add_le (rv (hp2 y 11) - ∑ k ∈ Finset.range 12, rv y ^ k / (k.factorial : ℝ))
+    (-(Real.exp (rv y) - ∑ k ∈ Finset.range 12, rv y ^ k / (k.factorial : ℝ)))
+  rw [abs_neg, show rv (hp2 y 11) - ∑ k ∈ Finset.range 12, rv y ^ k / (k.factorial : ℝ)
+    + -(Real.exp (rv y) - ∑ k ∈ Finset.range 12, rv y ^ k / (k.factorial : ℝ)) = rv (hp2 y 11) - Real.exp (rv y) by ring]
+    at h1
+  have e : (303 : ℝ) / 100 / 2 ^ 106 + 1 / 2 ^ 140 ≤ 304 / 100 / 2 ^ 106 := by norm_num
+  linarith
+
+end poly
+
+/-! ## `exp2`: the nine squarings -/
+
+section squarings
+open F64 TwoFloat
+
+/-- `i` squarings -/
+def sqn : ℕ → TwoFloat → TwoFloat
+  | 0, p => p
+  | i + 1, p => arithmetic.impl_Mul_TwoFloat_for_TwoFloat.mul (sqn i p) (sqn i p)
+
+theorem sq9_eq (p : TwoFloat) : C14p.sq9 p = sqn 9 p := rfl
+
+/-- the relative error after `i` squarings: `ε₀ = 4u²`, `ε ↦ 2ε + 7.01u²` -/
+noncomputable def eb : ℕ → ℝ
+  | 0 => 4 / 2 ^ 106
+  | i + 1 => 2 * eb i + 701 / 100 / 2 ^ 106
+
+theorem eb_nonneg (i : ℕ) : 0 ≤ eb i := by
+  induction i with
+  | zero => unfold eb; positivity
+  | succ i ih => unfold eb; positivity
+
+theorem eb_mono (i : ℕ) : eb i ≤ eb (i + 1) := by
+  have := eb_nonneg i
+  show eb i ≤ 2 * eb i + 701 / 100 / 2 ^ 106
+  have : (0 : ℝ) ≤ 701 / 100 / 2 ^ 106 := by positivity
+  linarith
+
+theorem eb_nine : eb 9 ≤ 5631 / 2 ^ 106 := by
+  simp only [eb]
+  norm_num
+
+theorem eb_le (i : ℕ) (hi : i ≤ 9) : eb i ≤ 5631 / 2 ^ 106 := by
+  have mono : ∀ a b : ℕ, a ≤ b → eb a ≤ eb b := by
+    intro a b hab
+    induction hab with
+    | refl => exact le_refl _
+    | step _ ih => exact le_trans ih (eb_mono _)
+  exact le_trans (mono i 9 hi) eb_nine
+
+theorem exp_range_small {y : ℝ} (h : |y| ≤ 35 / 100) : 3 / 10 ≤ Real.exp y ∧ Real.exp y ≤ 17 / 10 := by
+  have := Real.abs_exp_sub_one_le (le_trans h (by norm_num))
+  obtain ⟨h1, h2⟩ := abs_le.1 this
+  constructor <;> linarith
+
+/-- **the squarings of `exp2`** -/
+theorem sq_iter {p : TwoFloat} (hp : VW p) {ρ : ℝ} (hρ : |ρ| ≤ 35 / 100 / 512)
+    (h0 : |rv p - Real.exp ρ| ≤ eb 0 * Real.exp ρ) (i : ℕ) (hi : i ≤ 9) :
+    VW (sqn i p) ∧ |rv (sqn i p) - Real.exp (2 ^ i * ρ)| ≤ eb i * Real.exp (2 ^ i * ρ) := by
+  induction i with
+  | zero => simpa [sqn] using ⟨hp, h0⟩
+  | succ i ih =>
+    obtain ⟨qvw, hq⟩ := ih (by omega)
+    have hy : |(2 : ℝ) ^ i * ρ| ≤ 35 / 100 := by
+      rw [abs_mul, abs_of_pos (by positivity : (0 : ℝ) < 2 ^ i)]
+      have h2 : (2 : ℝ) ^ i ≤ 2 ^ 9 := pow_le_pow_right₀ (by norm_num) (by omega)
+      calc (2 : ℝ) ^ i * |ρ| ≤ 2 ^ 9 * (35 / 100 / 512) := mul_le_mul h2 hρ (abs_nonneg _) (by positivity)
+        _ = 35 / 100 := by norm_num
+    obtain ⟨E1, E2⟩ := exp_range_small hy
+    set E := Real.exp (2 ^ i * ρ) with hE
+    have hEpos : 0 < E := Real.exp_pos _
+    have heb := eb_le i (by omega)
+    have heb0 := eb_nonneg i
+    have hsmall : eb i * E ≤ E / 2 := by
+      have : eb i ≤ 1 / 2 := le_trans heb (by norm_num)
+      nlinarith
+    obtain ⟨q1, q2⟩ := abs_le.1 hq
+    have hq0 : 0 < rv (sqn i p) := by linarith
+    have hqlo : 15 / 100 ≤ rv (sqn i p) := by linarith
+    have hqhi : rv (sqn i p) ≤ 3 := by linarith
+    have hprod_lo : 1 / 2 ^ 957 ≤ |rv (sqn i p) * rv (sqn i p)| := by
+      rw [abs_of_pos (mul_pos hq0 hq0)]
+      have : (1 : ℝ) / 2 ^ 957 ≤ 15 / 100 * (15 / 100) := by norm_num
+      nlinarith
+    have hprod_hi : |rv (sqn i p) * rv (sqn i p)| ≤ 2 ^ 1019 := by
+      rw [abs_of_pos (mul_pos hq0 hq0)]
+      have : (3 : ℝ) * 3 ≤ 2 ^ 1019 := by norm_num
+      nlinarith
+    obtain ⟨nvw, hn⟩ := mul_rv_rel qvw qvw hprod_lo hprod_hi
+    refine ⟨nvw, ?_⟩
+    have core := sq_step_real hEpos hq heb0 (le_trans heb (by norm_num)) hn
+    have eE : E * E = Real.exp (2 ^ (i + 1) * ρ) := by
+      rw [hE, ← Real.exp_add]; congr 1; ring
+    rw [eE] at core
+    exact core
+
+end squarings
+
+/-! ## `exp2`: the final scaling -/
+
+section scaling
+open F64 TwoFloat
+
+/-- scaling both words of `t ∈ [1/4, 4]` by the double `2^j·2^-1074` (`174 ≤ j ≤ 2074`, i.e. `2^-900 … 2^1000`)
+followed by Fast2Sum: the high product is exact, the low product is one rounding -/
+theorem scale_pow2 {t : TwoFloat} (ht : VW t) (h1 : 1 / 4 ≤ rv t) (h2 : rv t ≤ 4) (j : ℕ) (hj1 : 174 ≤ j)
+    (hj2 : j ≤ 2074) :
+    VW (arithmetic.fast_two_sum (F64.mul t.hi (fin false (2 ^ j))) (F64.mul t.lo (fin false (2 ^ j)))) ∧
+    |rv (arithmetic.fast_two_sum (F64.mul t.hi (fin false (2 ^ j))) (F64.mul t.lo (fin false (2 ^ j))))
+        - rv t * (2 ^ j / 2 ^ 1074)|
+      ≤ 1001 / 1000 / 2 ^ 106 * (rv t * (2 ^ j / 2 ^ 1074)) + 1 / 2 ^ 1075 := by
+  have hpos : 0 < rv t := by linarith
+  have habs : |rv t| = rv t := abs_of_pos hpos
+  obtain ⟨w1, w2, -, -⟩ := hi_window ht.1 (p := 2) (q := 2) (by norm_num) (by rw [habs]; norm_num; linarith)
+    (by rw [habs]; norm_num; linarith)
+  norm_num at w1 w2
+  have hUi := unit_pos_int
+  have hUe : (unit : Int) = 2 ^ 1074 := C01d.unit_int_eq
+  have hM : (2 : Int) ^ 2097 ≤ (maxFin : Int) := two_pow_2097_le_maxFin_int
+  -- the power of two as a double
+  have hPv : IsVal (fin false (2 ^ j)) ((2 : Int) ^ j) := ⟨rfl, by show ((2 ^ j : Nat) : Int) = _; push_cast; rfl⟩
+  have hPpos : (0 : Int) < 2 ^ j := by positivity
+  have hPle : (2 : Int) ^ j ≤ 2 ^ 2074 := pow_le_pow_right₀ (by norm_num) hj2
+  -- the high word is a multiple of 2^900
+  have hdvd : (2 : Int) ^ 900 ∣ t.hi.toInt := by
+    apply dvd_hi_of_large ht.2
+    have : (2 : Int) ^ 1071 ≤ |t.hi.toInt| := w1
+    rw [← Int.natCast_natAbs] at this
+    have h3 : 2 ^ 1071 ≤ t.hi.toInt.natAbs := by exact_mod_cast this
+    exact le_trans (by norm_num) h3
+  obtain ⟨h', hh'⟩ := hdvd
+  have hh'r : RepI h' := by
+    have := ht.2.1.repI
+    rw [hh', mul_comm] at this
+    exact repI_mul_pow2_iff.1 this
+  have hHU : t.hi.toInt * 2 ^ j = (h' * 2 ^ (j - 174)) * (unit : Int) := by
+    rw [hh', hUe]
+    have e : (2 : Int) ^ 900 * h' * 2 ^ j = h' * (2 ^ 900 * 2 ^ j) := by ring
+    have e2 : h' * 2 ^ (j - 174) * 2 ^ 1074 = h' * (2 ^ (j - 174) * 2 ^ 1074) := by ring
+    have e3 : 900 + j = (j - 174) + 1074 := by omega
+    rw [e, e2, ← pow_add, ← pow_add, e3]
+  set H := h' * 2 ^ (j - 174) with hH
+  have hHabsU : |H| * (unit : Int) = |t.hi.toInt| * 2 ^ j := by
+    rw [← abs_mul_pos_right _ hUi, ← hHU, abs_mul_pos_right _ hPpos]
+  have hHhi : |H| ≤ 2 ^ 2077 := by
+    have : |H| * (unit : Int) ≤ 2 ^ 1077 * 2 ^ 2074 := by
+      rw [hHabsU]; exact mul_le_mul w2 hPle hPpos.le (by positivity)
+    rw [hUe] at this
+    have e : (2 : Int) ^ 1077 * 2 ^ 2074 = 2 ^ 2077 * 2 ^ 1074 := by rw [← pow_add, ← pow_add]
+    rw [e] at this
+    exact le_of_mul_le_mul_right this (by positivity)
+  have hA : IsVal (F64.mul t.hi (fin false (2 ^ j))) H :=
+    (IsVal.of_finite ht.1.1).mul_exact hPv hHU (repI_mul_pow2_iff.2 hh'r)
+      (le_trans hHhi (le_trans (by norm_num) hM))
+  -- the low word
+  have hxl := two_pow_mul_abs_le_of_half_ulp ht.1.two_mul_abs_lo_le
+  have hloP : |t.lo.toInt * 2 ^ j| ≤ 2 ^ 2024 * (unit : Int) := by
+    rw [abs_mul_pos_right _ hPpos, hUe]
+    have hl : |t.lo.toInt| ≤ 2 ^ 1024 := by
+      have := abs_nonneg t.lo.toInt
+      norm_num at hxl w2 ⊢
+      omega
+    calc |t.lo.toInt| * 2 ^ j ≤ 2 ^ 1024 * 2 ^ 2074 := mul_le_mul hl hPle hPpos.le (by positivity)
+      _ = 2 ^ 2024 * 2 ^ 1074 := by rw [← pow_add, ← pow_add]
+  have hB : IsVal (F64.mul t.lo (fin false (2 ^ j))) (rqI (t.lo.toInt * 2 ^ j) unit) := by
+    have := mul_spec ht.1.2.1 hPv.1 (by
+      rw [hPv.2]; exact roundQ_le_maxFin_of_abs_le 2024 (by norm_num) unit_pos hloP)
+    rw [hPv.2] at this
+    exact this
+  set L := rqI (t.lo.toInt * 2 ^ j) unit with hL
+  have eL := rqI_err_gen (t.lo.toInt * 2 ^ j) unit_pos
+  rw [← hL] at eL
+  have hAlo : 2 ^ 53 * |t.lo.toInt * 2 ^ j| ≤ |H| * (unit : Int) := by
+    rw [hHabsU, abs_mul_pos_right _ hPpos]
+    have := mul_le_mul_of_nonneg_right hxl hPpos.le
+    linarith
+  have hLH : |L| ≤ |H| := by
+    by_contra hc
+    have hc' : (|H| + 1) * (unit : Int) ≤ |L| * (unit : Int) := mul_le_mul_of_nonneg_right (by omega) hUi.le
+    rw [add_mul, one_mul] at hc'
+    have t1 : |L| * (unit : Int) ≤ |L * (unit : Int) - t.lo.toInt * 2 ^ j| + |t.lo.toInt * 2 ^ j| := by
+      have := abs_add_le (L * (unit : Int) - t.lo.toInt * 2 ^ j) (t.lo.toInt * 2 ^ j)
+      rw [show L * (unit : Int) - t.lo.toInt * 2 ^ j + t.lo.toInt * 2 ^ j = L * (unit : Int) by ring,
+        abs_mul_pos_right _ hUi] at this
+      exact this
+    have hn := abs_nonneg H
+    have hHU0 : 0 ≤ |H| * (unit : Int) := mul_nonneg hn hUi.le
+    generalize |L * (unit : Int) - t.lo.toInt * 2 ^ j| = E at *
+    generalize |t.lo.toInt * 2 ^ j| = A at *
+    generalize |H| * (unit : Int) = HU at *
+    generalize |L| * (unit : Int) = LU at *
+    generalize (unit : Int) = U at *
+    linarith
+  have hf2 := fast_two_sum_words hA.1 hB.1 (mul_WF _ _) (mul_WF _ _)
+    (by rw [hA.2, hB.2]; exact hLH)
+    (by
+      rw [hA.2, hB.2]
+      apply rn53_natAbs_le_maxFin
+      have := abs_add_le H L
+      have e : (2 : Int) * 2 ^ 2077 ≤ 2 ^ 2097 := by norm_num
+      omega)
+  rw [hA.2, hB.2] at hf2
+  obtain ⟨-, pV, pValid, pWF⟩ := eft_package hf2.1 hf2.2 (fast_two_sum_WF _ _).1 (fast_two_sum_WF _ _).2
+  refine ⟨⟨pValid, pWF⟩, ?_⟩
+  generalize arithmetic.fast_two_sum (F64.mul t.hi (fin false (2 ^ j))) (F64.mul t.lo (fin false (2 ^ j))) = R at *
+  -- to the reals
+  obtain ⟨b1, -⟩ := PowiBound.hi_bounds ht.1
+  have hUr : (0 : ℝ) < 2 ^ 1074 := by positivity
+  have hPr : (0 : ℝ) < 2 ^ j := by positivity
+  rw [hUe] at eL hHU
+  have r1 : (2 : ℝ) ^ 53 * |(L : ℝ) * 2 ^ 1074 - (t.lo.toInt : ℝ) * 2 ^ j| ≤ 2 ^ 52 * 2 ^ 1074
+      + |(t.lo.toInt : ℝ) * 2 ^ j| := by exact_mod_cast eL
+  have r2 : (t.hi.toInt : ℝ) * 2 ^ j = (H : ℝ) * 2 ^ 1074 := by exact_mod_cast hHU
+  have r3 : ((2 : ℝ) ^ 53 - 1) * |(t.hi.toInt : ℝ)| ≤ 2 ^ 53 * |(t.V : ℝ)| := by exact_mod_cast b1
+  have r4 : (2 : ℝ) ^ 53 * |(t.lo.toInt : ℝ)| ≤ |(t.hi.toInt : ℝ)| := by exact_mod_cast hxl
+  have hVt : (t.V : ℝ) = (t.hi.toInt : ℝ) + (t.lo.toInt : ℝ) := by unfold TwoFloat.V; push_cast; ring
+  have hVR : (R.V : ℝ) = (H : ℝ) + (L : ℝ) := by exact_mod_cast pV
+  have hVpos : (0 : ℝ) < (t.V : ℝ) := by
+    have : rv t = (t.V : ℝ) / 2 ^ 1074 := rfl
+    rw [this] at hpos
+    exact (div_pos_iff_of_pos_right hUr).1 hpos
+  unfold rv
+  have e1 : (R.V : ℝ) / 2 ^ 1074 - (t.V : ℝ) / 2 ^ 1074 * (2 ^ j / 2 ^ 1074)
+      = ((L : ℝ) * 2 ^ 1074 - (t.lo.toInt : ℝ) * 2 ^ j) / (2 ^ 1074 * 2 ^ 1074) := by
+    rw [hVR, hVt]; field_simp; linarith
+  have e2 : (t.V : ℝ) / 2 ^ 1074 * (2 ^ j / 2 ^ 1074) = ((t.V : ℝ) * 2 ^ j) / (2 ^ 1074 * 2 ^ 1074) := by
+    field_simp
+  have e3 : (1 : ℝ) / 2 ^ 1075 = (2 ^ 1074 / 2) / (2 ^ 1074 * 2 ^ 1074) := by
+    rw [show (2 : ℝ) ^ 1075 = 2 ^ 1074 * 2 by norm_num]; field_simp
+  rw [e1, e2, e3, abs_div, abs_of_pos (by positivity : (0 : ℝ) < 2 ^ 1074 * 2 ^ 1074), ← mul_div_assoc, ← add_div,
+    div_le_div_iff_of_pos_right (by positivity)]
+  rw [abs_mul, abs_of_pos hPr] at r1
+  rw [abs_of_pos hVpos] at r3
+  generalize |(L : ℝ) * 2 ^ 1074 - (t.lo.toInt : ℝ) * 2 ^ j| = E at *
+  generalize |(t.lo.toInt : ℝ)| = A at *
+  have hB0 : 0 ≤ |(t.hi.toInt : ℝ)| := abs_nonneg _
+  generalize |(t.hi.toInt : ℝ)| = B at *
+  generalize (t.V : ℝ) = W at *
+  generalize (2 : ℝ) ^ j = P at *
+  generalize (2 : ℝ) ^ 1074 = U at *
+  have k1 : E ≤ U / 2 + A * P / 2 ^ 53 := by
+    rw [show U / 2 + A * P / 2 ^ 53 = (2 ^ 52 * U + A * P) / 2 ^ 53 by ring, le_div_iff₀ (by positivity)]
+    linarith
+  have k2 : A ≤ B / 2 ^ 53 := by rw [le_div_iff₀ (by positivity)]; linarith
+  have k3 : B ≤ 2 ^ 53 / (2 ^ 53 - 1) * W := by
+    rw [div_mul_eq_mul_div, le_div_iff₀ (by norm_num)]; linarith
+  have k4 : A * P / 2 ^ 53 ≤ 1001 / 1000 / 2 ^ 106 * (W * P) := by
+    have h3 : A ≤ (2 ^ 53 / (2 ^ 53 - 1) * W) / 2 ^ 53 :=
+      le_trans k2 (div_le_div_of_nonneg_right k3 (by positivity))
+    have h4 : A * P / 2 ^ 53 ≤ ((2 ^ 53 / (2 ^ 53 - 1) * W) / 2 ^ 53) * P / 2 ^ 53 :=
+      div_le_div_of_nonneg_right (mul_le_mul_of_nonneg_right h3 hPr.le) (by positivity)
+    have h5 : ((2 ^ 53 / (2 ^ 53 - 1) * W) / 2 ^ 53) * P / 2 ^ 53
+        = (2 ^ 53 / (2 ^ 53 - 1) / 2 ^ 53 / 2 ^ 53) * (W * P) := by ring
+    have h6 : (2 : ℝ) ^ 53 / (2 ^ 53 - 1) / 2 ^ 53 / 2 ^ 53 ≤ 1001 / 1000 / 2 ^ 106 := by norm_num
+    have h7 : (2 ^ 53 / (2 ^ 53 - 1) / 2 ^ 53 / 2 ^ 53) * (W * P) ≤ 1001 / 1000 / 2 ^ 106 * (W * P) :=
+      mul_le_mul_of_nonneg_right h6 (by positivity)
+    linarith
+  linarith
+
+end scaling
+
+/-! ## `exp2`: the assembly -/
+
+section assembly
+open F64 TwoFloat
+
+/-- the polynomial value against `e^ρ` for the exact reduced argument `ρ` -/
+theorem p0_real {p r ρ : ℝ} (hρ : |ρ| ≤ 35 / 100 / 512) (hr : |r - ρ| ≤ 1 / 100 / 2 ^ 106)
+    (hp : |p - Real.exp r| ≤ 304 / 100 / 2 ^ 106) : |p - Real.exp ρ| ≤ 4 / 2 ^ 106 * Real.exp ρ := by
+  have hG := Real.exp_pos ρ
+  have h1 := Real.abs_exp_sub_one_le (x := ρ) (le_trans hρ (by norm_num))
+  obtain ⟨g1, g2⟩ := abs_le.1 h1
+  obtain ⟨ρ1, ρ2⟩ := abs_le.1 hρ
+  have hGlo : 99 / 100 ≤ Real.exp ρ := by
+    have : |ρ| ≤ 1 / 1000 := le_trans hρ (by norm_num)
+    linarith
+  have h2 := Real.abs_exp_sub_one_le (x := r - ρ) (le_trans hr (by norm_num))
+  have e : Real.exp r - Real.exp ρ = Real.exp ρ * (Real.exp (r - ρ) - 1) := by
+    rw [mul_sub, mul_one, ← Real.exp_add]; congr 2; ring
+  have h3 : |Real.exp r - Real.exp ρ| ≤ Real.exp ρ * (2 * (1 / 100 / 2 ^ 106)) := by
+    rw [e, abs_mul, abs_of_pos hG]
+    exact mul_le_mul_of_nonneg_left (by linarith) hG.le
+  have h4 := abs_add_le (p - Real.exp r) (Real.exp r - Real.exp ρ)
+  rw [show p - Real.exp r + (Real.exp r - Real.exp ρ) = p - Real.exp ρ by ring] at h4
+  have h5 : (304 : ℝ) / 100 / 2 ^ 106 ≤ 308 / 100 / 2 ^ 106 * Real.exp ρ := by
+    have : (308 : ℝ) / 100 / 2 ^ 106 * (99 / 100) ≤ 308 / 100 / 2 ^ 106 * Real.exp ρ :=
+      mul_le_mul_of_nonneg_left hGlo (by positivity)
+    have e2 : (304 : ℝ) / 100 / 2 ^ 106 ≤ 308 / 100 / 2 ^ 106 * (99 / 100) := by norm_num
+    linarith
+  have e3 : (4 : ℝ) / 2 ^ 106 * Real.exp ρ
+      = 308 / 100 / 2 ^ 106 * Real.exp ρ + Real.exp ρ * (2 * (1 / 100 / 2 ^ 106)) + 90 / 100 / 2 ^ 106 * Real.exp ρ := by
+    ring
+  have h6 : (0 : ℝ) ≤ 90 / 100 / 2 ^ 106 * Real.exp ρ := by positivity
+  linarith
+
+theorem LN_2_vw : VW consts.LN_2 ∧ |Real.log 2 - rv consts.LN_2| ≤ |Real.log 2| / 2 ^ 107 := by
+  refine ⟨⟨by decide +kernel, by decide +kernel⟩, ?_⟩
+  exact C12x.LN_2_rel_err
+
+/-- `e^(q·log 2) = 2^(q+1074) / 2^1074` -/
+theorem exp_int_log_two (q : ℤ) (j : ℕ) (hj : (j : ℤ) = q + 1074) :
+    Real.exp ((q : ℝ) * Real.log 2) = 2 ^ j / 2 ^ 1074 := by
+  have h2 : Real.exp (Real.log 2) = 2 := Real.exp_log (by norm_num)
+  have e1 : (2 : ℝ) ^ j = Real.exp ((j : ℝ) * Real.log 2) := by rw [Real.exp_nat_mul, h2]
+  have e2 : (2 : ℝ) ^ 1074 = Real.exp (((1074 : ℕ) : ℝ) * Real.log 2) := by rw [Real.exp_nat_mul, h2]
+  rw [e1, e2, ← Real.exp_sub]
+  congr 1
+  have : (j : ℝ) = (q : ℝ) + 1074 := by exact_mod_cast hj
+  rw [this]; push_cast; ring
+
+/-- real-number core of the last step -/
+theorem final_real {res t E S eps : ℝ} (hE : 3 / 10 ≤ E) (hS : 1 / 2 ^ 900 ≤ S) (ht : |t - E| ≤ eps * E)
+    (_heps0 : 0 ≤ eps) (heps : eps ≤ 5631 / 2 ^ 106)
+    (hres : |res - t * S| ≤ 1001 / 1000 / 2 ^ 106 * (t * S) + 1 / 2 ^ 1075) :
+    |res - E * S| ≤ 5633 / 2 ^ 106 * (E * S) := by
+  have hE0 : 0 < E := by linarith
+  have hS0 : 0 < S := lt_of_lt_of_le (by positivity) hS
+  have hG : 0 < E * S := mul_pos hE0 hS0
+  have hGlo : 3 / 10 * (1 / 2 ^ 900) ≤ E * S := mul_le_mul hE hS (by positivity) hE0.le
+  obtain ⟨t1, t2⟩ := abs_le.1 ht
+  have htS : t * S ≤ (1 + eps) * (E * S) := by
+    have : t ≤ (1 + eps) * E := by linarith
+    calc t * S ≤ (1 + eps) * E * S := mul_le_mul_of_nonneg_right this hS0.le
+      _ = (1 + eps) * (E * S) := by ring
+  have h1 : |t * S - E * S| ≤ eps * (E * S) := by
+    rw [← sub_mul, abs_mul, abs_of_pos hS0]
+    calc |t - E| * S ≤ eps * E * S := mul_le_mul_of_nonneg_right ht hS0.le
+      _ = eps * (E * S) := by ring
+  have h2 := abs_add_le (res - t * S) (t * S - E * S)
+  rw [show res - t * S + (t * S - E * S) = res - E * S by ring] at h2
+  have h3 : (1001 : ℝ) / 1000 / 2 ^ 106 * (t * S) ≤ 1001 / 1000 / 2 ^ 106 * ((1 + eps) * (E * S)) :=
+    mul_le_mul_of_nonneg_left htS (by positivity)
+  have h4 : (1 : ℝ) / 2 ^ 1075 ≤ 1 / 1000 / 2 ^ 106 * (E * S) := by
+    have : (1 : ℝ) / 1000 / 2 ^ 106 * (3 / 10 * (1 / 2 ^ 900)) ≤ 1 / 1000 / 2 ^ 106 * (E * S) :=
+      mul_le_mul_of_nonneg_left hGlo (by positivity)
+    refine le_trans ?_ this
+    norm_num
+  have h5 : (1001 : ℝ) / 1000 / 2 ^ 106 * ((1 + eps) * (E * S)) ≤ 1002 / 1000 / 2 ^ 106 * (E * S) := by
+    rw [← mul_assoc]
+    refine mul_le_mul_of_nonneg_right ?_ hG.le
+    have : (1001 : ℝ) / 1000 / 2 ^ 106 * (1 + eps) ≤ 1001 / 1000 / 2 ^ 106 * (1 + 5631 / 2 ^ 106) :=
+      mul_le_mul_of_nonneg_left (by linarith) (by positivity)
+    refine le_trans this ?_
+    norm_num
+  have h6 : eps * (E * S) ≤ 5631 / 2 ^ 106 * (E * S) := mul_le_mul_of_nonneg_right heps hG.le
+  have e : (5633 : ℝ) / 2 ^ 106 * (E * S)
+      = 1002 / 1000 / 2 ^ 106 * (E * S) + 1 / 1000 / 2 ^ 106 * (E * S) + 5631 / 2 ^ 106 * (E * S)
+        + 997 / 1000 / 2 ^ 106 * (E * S) := by ring
+  have h7 : (0 : ℝ) ≤ 997 / 1000 / 2 ^ 106 * (E * S) := by positivity
+  linarith
+
+/-- **accuracy of `TwoFloat::exp2`**: for a valid `x` with `−900 ≤ x ≤ 1000` the result is a valid pair within relative
+`5633u² = 5633·2^-106 < 2^-93` of `2^x = e^(x·log 2)` -/
+theorem exp2_bound_main (x : TwoFloat) (hv : x.Valid) (hw : x.WF) (hlo : -900 ≤ rv x) (hhi : rv x ≤ 1000) :
+    VW (TwoFloat.exp2 x) ∧
+    |rv (TwoFloat.exp2 x) - Real.exp (rv x * Real.log 2)| ≤ 5633 / 2 ^ 106 * Real.exp (rv x * Real.log 2) := by
+  have hU : (0 : ℝ) < 2 ^ 1074 := by positivity
+  have hUi := unit_pos_int
+  have hUe : (unit : Int) = 2 ^ 1074 := C01d.unit_int_eq
+  -- integer bounds on the value and on the words
+  have hV1 : -900 * 2 ^ 1074 ≤ x.V := by
+    have h : (-900 : ℝ) * 2 ^ 1074 ≤ (x.V : ℝ) := by
+      have := hlo; unfold rv at this; rwa [le_div_iff₀ hU] at this
+    exact_mod_cast h
+  have hV2 : x.V ≤ 1000 * 2 ^ 1074 := by
+    have h : (x.V : ℝ) ≤ 1000 * 2 ^ 1074 := by
+      have := hhi; unfold rv at this; rwa [div_le_iff₀ hU] at this
+    exact_mod_cast h
+  have hxl := two_pow_mul_abs_le_of_half_ulp hv.two_mul_abs_lo_le
+  obtain ⟨b1, -⟩ := PowiBound.hi_bounds hv
+  have e1074 : (2 : ℤ) ^ 1074 = 2 ^ 53 * 2 ^ 1021 := by norm_num
+  have hT : (0 : ℤ) < 2 ^ 1021 := by positivity
+  have hVabs : |x.V| ≤ 1000 * 2 ^ 1074 := abs_le.2 ⟨by linarith, hV2⟩
+  have hhiabs : |x.hi.toInt| ≤ 1001 * 2 ^ 1074 := by
+    rw [e1074] at hVabs ⊢
+    generalize (2 : ℤ) ^ 1021 = T at *
+    have := abs_nonneg x.hi.toInt
+    norm_num at b1 ⊢
+    omega
+  have hloabs : |x.lo.toInt| ≤ 1001 * 2 ^ 1021 := by
+    rw [e1074] at hhiabs
+    generalize (2 : ℤ) ^ 1021 = T at *
+    have := abs_nonneg x.lo.toInt
+    norm_num at hxl ⊢
+    omega
+  rw [C14p.exp2_unfold]
+  -- the two range tests
+  have c1 : ROrd.isLt (base.impl_PartialOrd_f64_for_TwoFloat.partial_cmp x
+      (F64.neg (f64lit 0x4090c80000000000))) = false := by
+    rw [C14p.lit_m1074, partial_cmp_tf_exact_of F64.roundFacts hv
+      (show (fin true (1074 * F64.unit)).WF by decide +kernel) rfl, Bool.eq_false_iff]
+    intro hc
+    have := ROrd.isLt_ofInts.1 hc
+    have e : (fin true (1074 * F64.unit)).toInt = -1074 * (F64.unit : Int) := by
+      show -((1074 * F64.unit : Nat) : Int) = _; push_cast; ring
+    rw [e, hUe] at this
+    have hP : (0 : ℤ) < 2 ^ 1074 := by positivity
+    generalize (2 : ℤ) ^ 1074 = P at *
+    omega
+  have c2 : ROrd.isGe (base.impl_PartialOrd_f64_for_TwoFloat.partial_cmp x
+      (f64lit 0x408ff80000000000)) = false := by
+    rw [C14p.lit_1023, partial_cmp_tf_exact_of F64.roundFacts hv
+      (show (fin false (1023 * F64.unit)).WF by decide +kernel) rfl, Bool.eq_false_iff]
+    intro hc
+    have := ROrd.isGe_ofInts.1 hc
+    have e : (fin false (1023 * F64.unit)).toInt = 1023 * (F64.unit : Int) := by
+      show ((1023 * F64.unit : Nat) : Int) = _; push_cast; ring
+    rw [e, hUe] at this
+    have hP : (0 : ℤ) < 2 ^ 1074 := by positivity
+    generalize (2 : ℤ) ^ 1074 = P at *
+    omega
+  rw [c1, c2, if_neg Bool.false_ne_true, if_neg Bool.false_ne_true]
+  -- k = round(x.hi)
+  obtain ⟨q, kf, kq, knear, -⟩ := round_val hv.1
+  rw [hUe] at kq knear
+  have kWF : (F64.round x.hi).WF := C08.WF_round hw.1
+  have hVhl : x.V = x.hi.toInt + x.lo.toInt := rfl
+  have hnearV : 2 * |x.V - q * 2 ^ 1074| ≤ 2 ^ 1074 + 2002 * 2 ^ 1021 := by
+    have e : x.V - q * 2 ^ 1074 = -(q * 2 ^ 1074 - x.hi.toInt) + x.lo.toInt := by rw [hVhl]; ring
+    have := abs_add_le (-(q * 2 ^ 1074 - x.hi.toInt)) x.lo.toInt
+    rw [abs_neg, ← e] at this
+    linarith
+  have hUT : (2 : ℤ) ^ 1074 = 9007199254740992 * 2 ^ 1021 := by norm_num
+  have hq1 : -900 ≤ q := by
+    have h1 : (-901) * (2 : ℤ) ^ 1074 < q * 2 ^ 1074 := by
+      have := le_abs_self (x.V - q * 2 ^ 1074)
+      clear hVabs hhiabs hloabs e1074 kq knear hUe hVhl b1 hxl
+      generalize q * (2 : ℤ) ^ 1074 = QU at *
+      generalize (2 : ℤ) ^ 1074 = U at *
+      generalize (2 : ℤ) ^ 1021 = T at *
+      generalize |x.V - QU| = D at *
+      omega
+    have := lt_of_mul_lt_mul_right h1 (by positivity : (0 : ℤ) ≤ 2 ^ 1074)
+    omega
+  have hq2 : q ≤ 1000 := by
+    have h1 : q * (2 : ℤ) ^ 1074 < 1001 * 2 ^ 1074 := by
+      have := neg_abs_le (x.V - q * 2 ^ 1074)
+      clear hVabs hhiabs hloabs e1074 kq knear hUe hVhl b1 hxl
+      generalize q * (2 : ℤ) ^ 1074 = QU at *
+      generalize (2 : ℤ) ^ 1074 = U at *
+      generalize (2 : ℤ) ^ 1021 = T at *
+      generalize |x.V - QU| = D at *
+      omega
+    have := lt_of_mul_lt_mul_right h1 (by positivity : (0 : ℤ) ≤ 2 ^ 1074)
+    omega
+  -- δ = x − k
+  have hfvk : fv (F64.round x.hi) = (q : ℝ) := by
+    unfold fv; rw [kq]
+    simp only [Int.cast_mul, Int.cast_pow, Int.cast_ofNat]
+    exact mul_div_cancel_right₀ (q : ℝ) (by positivity : ((2 : ℝ) ^ 1074) ≠ 0)
+  set δ := rv x - (q : ℝ) with hδ
+  have hδabs : |δ| ≤ 501 / 1000 := by
+    have h : (2 : ℝ) * |(x.V : ℝ) - (q : ℝ) * 2 ^ 1074| ≤ 2 ^ 1074 + 2002 * 2 ^ 1021 := by exact_mod_cast hnearV
+    have e : δ = ((x.V : ℝ) - (q : ℝ) * 2 ^ 1074) / 2 ^ 1074 := by
+      rw [hδ]; unfold rv; field_simp
+    rw [e, abs_div, abs_of_pos hU, div_le_iff₀ hU]
+    have e2 : (2 : ℝ) ^ 1074 = 2 ^ 53 * 2 ^ 1021 := by norm_num
+    rw [e2] at h ⊢
+    have hT' : (0 : ℝ) < 2 ^ 1021 := by positivity
+    generalize (2 : ℝ) ^ 1021 = T at *
+    norm_num at h ⊢
+    linarith
+  have hxabs : |rv x| ≤ 2 ^ 1000 := by
+    have : |rv x| ≤ 1000 := abs_le.2 ⟨by linarith, hhi⟩
+    exact le_trans this (by norm_num)
+  have hkb : (F64.round x.hi).toInt.natAbs < 2 ^ 2095 := by
+    rw [kq]
+    apply natAbs_lt_of_abs_lt
+    rw [abs_mul, abs_of_pos (by positivity : (0 : ℤ) < 2 ^ 1074)]
+    have : |q| ≤ 1000 := abs_le.2 ⟨by omega, hq2⟩
+    calc |q| * 2 ^ 1074 ≤ 1000 * 2 ^ 1074 := by nlinarith
+      _ < 2 ^ 2095 := by norm_num
+  obtain ⟨svw, hs⟩ := sub_tf_rv ⟨hv, hw⟩ kf kWF hxabs hkb
+  rw [hfvk] at hs
+  generalize hsdef : arithmetic.impl_Sub_f64_for_TwoFloat.sub x (F64.round x.hi) = s at *
+  -- m = s · LN_2
+  obtain ⟨lnvw, hl⟩ := LN_2_vw
+  obtain ⟨l1, l2⟩ := log_two_range
+  have hsabs : |rv s| ≤ 1 := by
+    have := abs_sub_abs_le_abs_sub (rv s) δ
+    have h2 : (1 : ℝ) / 2 ^ 105 * |δ| ≤ 1 / 2 ^ 105 * (501 / 1000) := mul_le_mul_of_nonneg_left hδabs (by positivity)
+    have e : (1 : ℝ) / 2 ^ 105 * (501 / 1000) + 501 / 1000 ≤ 1 := by norm_num
+    linarith
+  have hlabs : |rv consts.LN_2| ≤ 1 := by
+    have := abs_sub_abs_le_abs_sub (rv consts.LN_2) (Real.log 2)
+    rw [abs_sub_comm] at hl
+    rw [abs_of_pos (by linarith : (0 : ℝ) < Real.log 2)] at this hl
+    have : Real.log 2 / 2 ^ 107 ≤ 1 / 10 := by
+      rw [div_le_iff₀ (by positivity)]; norm_num; linarith
+    linarith
+  have hprod : |rv s * rv consts.LN_2| ≤ 2 ^ 1019 := by
+    rw [abs_mul]
+    calc |rv s| * |rv consts.LN_2| ≤ 1 * 1 := mul_le_mul hsabs hlabs (abs_nonneg _) (by norm_num)
+      _ ≤ 2 ^ 1019 := by norm_num
+  obtain ⟨mvw, hm⟩ := mul_rv svw lnvw hprod
+  generalize hmdef : arithmetic.impl_Mul_TwoFloat_for_TwoFloat.mul s consts.LN_2 = m at *
+  -- r = m / 512
+  obtain ⟨rvw, hr⟩ := div_pow2_gen mvw lit512_isVal (by norm_num) (by norm_num)
+  generalize hrdef : arithmetic.impl_Div_f64_for_TwoFloat.div m (f64lit 0x4080000000000000) = r at *
+  obtain ⟨hrρ, hrabs⟩ := reduce_real hδabs hs hl hm hr
+  set ρ := δ * Real.log 2 / 512 with hρdef
+  have hρabs : |ρ| ≤ 35 / 100 / 512 := by
+    rw [hρdef, abs_div, abs_of_pos (by norm_num : (0 : ℝ) < 512)]
+    refine div_le_div_of_nonneg_right ?_ (by norm_num)
+    rw [abs_mul, abs_of_pos (by linarith : (0 : ℝ) < Real.log 2)]
+    calc |δ| * Real.log 2 ≤ 501 / 1000 * (6932 / 10000) := mul_le_mul hδabs l2 (by linarith) (by norm_num)
+      _ ≤ 35 / 100 := by norm_num
+  -- the polynomial
+  rw [polyFold_eq2]
+  obtain ⟨pvw, hp⟩ := horner2_bound rvw hrabs
+  have hp0 := p0_real hρabs hrρ hp
+  -- nine squarings
+  obtain ⟨tvw, ht⟩ := sq_iter pvw hρabs hp0 9 (le_refl _)
+  have e512 : (2 : ℝ) ^ 9 * ρ = δ * Real.log 2 := by rw [hρdef]; norm_num; ring
+  rw [e512] at ht
+  have hδl : |δ * Real.log 2| ≤ 35 / 100 := by
+    rw [← e512, abs_mul, abs_of_pos (by positivity : (0 : ℝ) < 2 ^ 9)]
+    calc (2 : ℝ) ^ 9 * |ρ| ≤ 2 ^ 9 * (35 / 100 / 512) := mul_le_mul_of_nonneg_left hρabs (by positivity)
+      _ = 35 / 100 := by norm_num
+  obtain ⟨E1, E2⟩ := exp_range_small hδl
+  have heb9 := eb_nine
+  have heb0 := eb_nonneg 9
+  unfold C14p.exp2Tail
+  rw [sq9_eq]
+  generalize hp0def : hp2 r 11 = p0 at *
+  generalize htdef : sqn 9 p0 = t at *
+  have hxq : rv x = (q : ℝ) + δ := by rw [hδ]; ring
+  by_cases hq0 : q = 0
+  · have : (F64.round x.hi ==. f64lit 0x0000000000000000) = true := by
+      rw [req_eq, Ident.f64lit_zero, eq_iff_toInt kf rfl, kq, hq0, toInt_zero]; ring
+    rw [this, if_pos rfl]
+    refine ⟨tvw, ?_⟩
+    have e : rv x * Real.log 2 = δ * Real.log 2 := by rw [hxq, hq0]; push_cast; ring
+    rw [e]
+    refine le_trans ht ?_
+    exact mul_le_mul_of_nonneg_right (le_trans heb9 (by norm_num)) (Real.exp_pos _).le
+  · have hne : (F64.round x.hi ==. f64lit 0x0000000000000000) = false := by
+      rw [req_eq, Ident.f64lit_zero, Bool.eq_false_iff]
+      intro hc
+      have := (eq_iff_toInt kf rfl).1 hc
+      rw [kq, toInt_zero] at this
+      rcases mul_eq_zero.1 this with h | h
+      · exact hq0 h
+      · have : (0 : ℤ) < 2 ^ 1074 := by positivity
+        omega
+    rw [hne]
+    simp only [Bool.false_eq_true, if_false]
+    have hcast : (RCast.cast (F64.round x.hi) : I32) = ⟨q⟩ :=
+      PF.cast_f64_i32 kf (by rw [kq, hUe]) (by omega)
+    rw [hcast, C14p.mul_pow2_eq _ q (by omega) (by omega), C14p.mul_pow2_eq _ q (by omega) (by omega)]
+    obtain ⟨j, hj⟩ : ∃ j : ℕ, (q + 1074).toNat = j := ⟨_, rfl⟩
+    have hjq : (j : ℤ) = q + 1074 := by omega
+    rw [hj]
+    -- the range of t
+    obtain ⟨t1, t2⟩ := abs_le.1 ht
+    have hsm : eb 9 * Real.exp (δ * Real.log 2) ≤ 1 / 100 := by
+      have : eb 9 ≤ 1 / 200 := le_trans heb9 (by norm_num)
+      nlinarith
+    obtain ⟨svw', hsc⟩ := scale_pow2 tvw (by linarith) (by linarith) j (by omega) (by omega)
+    refine ⟨svw', ?_⟩
+    have hS := exp_int_log_two q j hjq
+    have hSlo : (1 : ℝ) / 2 ^ 900 ≤ 2 ^ j / 2 ^ 1074 := by
+      rw [div_le_div_iff₀ (by positivity) (by positivity), one_mul, ← pow_add]
+      exact pow_le_pow_right₀ (by norm_num) (by omega)
+    have core := final_real E1 hSlo ht heb0 heb9 hsc
+    have e : rv x * Real.log 2 = δ * Real.log 2 + (q : ℝ) * Real.log 2 := by rw [hxq]; ring
+    rw [e, Real.exp_add, hS]
+    exact core
+
+end assembly
+
+/-! ## `exp_m1` -/
+
+section expm1
+open F64 TwoFloat
+
+/-- which way `TwoFloat::abs` goes -/
+theorem abs_cases {t : TwoFloat} (hv : t.Valid) :
+    (0 < t.V → TwoFloat.abs t = t) ∧ (t.V < 0 → TwoFloat.abs t = arithmetic.impl_Neg_for_rTwoFloat.neg t) ∧
+    (TwoFloat.abs t = t ∨ TwoFloat.abs t = arithmetic.impl_Neg_for_rTwoFloat.neg t) := by
+  rw [TwoFloat.abs_nf]
+  refine ⟨?_, ?_, ?_⟩
+  · intro h
+    have hh : 0 < t.hi.toInt := (hv.hi_pos_iff F64.roundFacts).2 h
+    have h1 : F64.gt t.hi (F64.fin false 0) = true := (F64.gt_zero_iff hv.1).mpr hh
+    simp only [h1, Bool.true_or, if_true]
+  · intro h
+    have hh : t.hi.toInt < 0 := (hv.hi_neg_iff F64.roundFacts).2 h
+    have h1 : F64.gt t.hi (F64.fin false 0) = false := by
+      rw [← Bool.not_eq_true, F64.gt_zero_iff hv.1]; omega
+    have h2 : F64.eq t.hi (F64.fin false 0) = false := by
+      rw [← Bool.not_eq_true, F64.eq_zero_iff hv.1]; omega
+    simp only [h1, h2, Bool.false_and, Bool.or_false, Bool.false_eq_true, if_false]
+  · split
+    · exact Or.inl rfl
+    · exact Or.inr rfl
+
+/-- `abs` over `ℝ` -/
+theorem abs_rv' {t : TwoFloat} (ht : VW t) : VW (TwoFloat.abs t) ∧ rv (TwoFloat.abs t) = |rv t| := by
+  obtain ⟨c1, c2, c3⟩ := abs_cases ht.1
+  have hU : (0 : ℝ) < 2 ^ 1074 := by positivity
+  have hneg := neg_rv ht
+  have hneg' : VW (arithmetic.impl_Neg_for_rTwoFloat.neg t) ∧ rv (arithmetic.impl_Neg_for_rTwoFloat.neg t) = -rv t :=
+    hneg
+  rcases lt_trichotomy t.V 0 with h | h | h
+  · rw [c2 h]
+    refine ⟨hneg'.1, ?_⟩
+    rw [hneg'.2, abs_of_neg]
+    unfold rv
+    exact div_neg_of_neg_of_pos (by exact_mod_cast h) hU
+  · have h0 : rv t = 0 := by unfold rv; rw [h]; simp
+    rcases c3 with e | e <;> rw [e]
+    · exact ⟨ht, by rw [h0, abs_zero]⟩
+    · exact ⟨hneg'.1, by rw [hneg'.2, h0, neg_zero, abs_zero]⟩
+  · rw [c1 h]
+    refine ⟨ht, ?_⟩
+    rw [abs_of_pos]
+    unfold rv
+    exact div_pos (by exact_mod_cast h) hU
+
+/-- real-number core of `s·(t·P(t) + 1)`, `|s| = t ∈ [0, 1/128]`, the last product purely relative -/
+theorem expm1_core_real {t s p Pe m1 q w : ℝ} (ht0 : 0 ≤ t) (ht : t ≤ 1 / 128) (hs : |s| = t)
+    (hp : |p - Pe| ≤ 4 / 2 ^ 106) (hP1 : 1 / 4 ≤ Pe) (hP2 : Pe ≤ 1)
+    (hm1 : |m1 - t * p| ≤ 7 / 2 ^ 106 * |t * p| + 1 / 2 ^ 950)
+    (hq : |q - (m1 + 1)| ≤ 1 / 2 ^ 105 * |m1 + 1|)
+    (hw : |w - s * q| ≤ 7 / 2 ^ 106 * |s * q|) :
+    |w - s * (t * Pe + 1)| ≤ 93 / 10 / 2 ^ 106 * |s| ∧ |q| ≤ 101 / 100 ∧ 99 / 100 ≤ |q| := by
+  have htabs : |t| = t := abs_of_nonneg ht0
+  have hpabs : |p| ≤ 101 / 100 := by
+    have := abs_sub_abs_le_abs_sub p Pe
+    rw [abs_of_nonneg (by linarith : (0 : ℝ) ≤ Pe)] at this
+    have e : (4 : ℝ) / 2 ^ 106 ≤ 1 / 100 := by norm_num
+    linarith
+  have htp : |t * p| ≤ 101 / 100 * t := by
+    rw [abs_mul, htabs, mul_comm]; exact mul_le_mul_of_nonneg_right hpabs ht0
+  have d1 : |m1 - t * Pe| ≤ 1107 / 100 / 2 ^ 106 * t + 1 / 2 ^ 950 := by
+    have h1 := abs_add_le (m1 - t * p) (t * p - t * Pe)
+    rw [show m1 - t * p + (t * p - t * Pe) = m1 - t * Pe by ring] at h1
+    have h2 : |t * p - t * Pe| ≤ 4 / 2 ^ 106 * t := by
+      rw [← mul_sub, abs_mul, htabs, mul_comm]; exact mul_le_mul_of_nonneg_right hp ht0
+    have h3 := mul_le_mul_of_nonneg_left htp (by positivity : (0 : ℝ) ≤ 7 / 2 ^ 106)
+    have e : (7 : ℝ) / 2 ^ 106 * (101 / 100 * t) + 4 / 2 ^ 106 * t = 1107 / 100 / 2 ^ 106 * t := by ring
+    linarith
+  have d1' : |m1 - t * Pe| ≤ 9 / 100 / 2 ^ 106 := by
+    have := mul_le_mul_of_nonneg_left ht (by positivity : (0 : ℝ) ≤ 1107 / 100 / 2 ^ 106)
+    have e : (1107 : ℝ) / 100 / 2 ^ 106 * (1 / 128) + 1 / 2 ^ 950 ≤ 9 / 100 / 2 ^ 106 := by norm_num
+    linarith
+  have htPe : |t * Pe| ≤ 1 / 128 := by
+    rw [abs_mul, htabs, abs_of_nonneg (by linarith : (0 : ℝ) ≤ Pe)]
+    calc t * Pe ≤ 1 / 128 * 1 := mul_le_mul ht hP2 (by linarith) (by norm_num)
+      _ = 1 / 128 := by ring
+  have hm1abs : |m1| ≤ 1 / 100 := by
+    have := abs_sub_abs_le_abs_sub m1 (t * Pe)
+    have e : (9 : ℝ) / 100 / 2 ^ 106 + 1 / 128 ≤ 1 / 100 := by norm_num
+    linarith
+  have hm11 : |m1 + 1| ≤ 101 / 100 := by
+    have := abs_add_le m1 1
+    rw [abs_one] at this; linarith
+  have d2 : |q - (t * Pe + 1)| ≤ 211 / 100 / 2 ^ 106 := by
+    have h1 := abs_add_le (q - (m1 + 1)) (m1 - t * Pe)
+    rw [show q - (m1 + 1) + (m1 - t * Pe) = q - (t * Pe + 1) by ring] at h1
+    have h3 := mul_le_mul_of_nonneg_left hm11 (by positivity : (0 : ℝ) ≤ 1 / 2 ^ 105)
+    have e : (1 : ℝ) / 2 ^ 105 * (101 / 100) + 9 / 100 / 2 ^ 106 ≤ 211 / 100 / 2 ^ 106 := by norm_num
+    linarith
+  have hqabs : |q| ≤ 101 / 100 ∧ 99 / 100 ≤ |q| := by
+    have h1 := abs_sub_abs_le_abs_sub q (t * Pe + 1)
+    have h1' := abs_sub_abs_le_abs_sub (t * Pe + 1) q
+    rw [abs_sub_comm] at h1'
+    obtain ⟨l1, l2⟩ := abs_le.1 htPe
+    have h2 : |t * Pe + 1| = t * Pe + 1 := abs_of_pos (by linarith)
+    rw [h2] at h1 h1'
+    have e : (211 : ℝ) / 100 / 2 ^ 106 + 1 / 128 + 1 ≤ 101 / 100 := by norm_num
+    have e' : (99 : ℝ) / 100 ≤ 1 - 1 / 128 - 211 / 100 / 2 ^ 106 := by norm_num
+    constructor <;> linarith
+  refine ⟨?_, hqabs.1, hqabs.2⟩
+  have hS := abs_nonneg s
+  have hsq : |s * q| ≤ 101 / 100 * |s| := by
+    rw [abs_mul, mul_comm]; exact mul_le_mul_of_nonneg_right hqabs.1 hS
+  have h1 := abs_add_le (w - s * q) (s * q - s * (t * Pe + 1))
+  rw [show w - s * q + (s * q - s * (t * Pe + 1)) = w - s * (t * Pe + 1) by ring] at h1
+  have h2 : |s * q - s * (t * Pe + 1)| ≤ 211 / 100 / 2 ^ 106 * |s| := by
+    rw [← mul_sub, abs_mul, mul_comm]; exact mul_le_mul_of_nonneg_right d2 hS
+  have h3 := mul_le_mul_of_nonneg_left hsq (by positivity : (0 : ℝ) ≤ 7 / 2 ^ 106)
+  have e : (7 : ℝ) / 2 ^ 106 * (101 / 100 * |s|) + 211 / 100 / 2 ^ 106 * |s| = 918 / 100 / 2 ^ 106 * |s| := by ring
+  have e' : (918 : ℝ) / 100 / 2 ^ 106 * |s| ≤ 93 / 10 / 2 ^ 106 * |s| :=
+    mul_le_mul_of_nonneg_right (by norm_num) hS
+  linarith
+
+/-- the Taylor-branch kernel of `exp_m1`: `w = s·(a·P(a) + 1)` with `a = |x|`, `s = x` -/
+theorem expm1_kernel {a sx : TwoFloat} (ha : VW a) (hsx : VW sx) (hs : |rv sx| = rv a) (ht : rv a ≤ 1 / 128)
+    (hlo : 1 / 2 ^ 950 ≤ rv a) :
+    VW (arithmetic.impl_Mul_TwoFloat_for_TwoFloat.mul sx (arithmetic.impl_Add_f64_for_TwoFloat.add
+      (arithmetic.impl_Mul_TwoFloat_for_TwoFloat.mul a (hp a 12)) (f64lit 0x3ff0000000000000))) ∧
+    |rv (arithmetic.impl_Mul_TwoFloat_for_TwoFloat.mul sx (arithmetic.impl_Add_f64_for_TwoFloat.add
+      (arithmetic.impl_Mul_TwoFloat_for_TwoFloat.mul a (hp a 12)) (f64lit 0x3ff0000000000000)))
+      - rv sx * (rv a * PR (rv a) 12 + 1)| ≤ 93 / 10 / 2 ^ 106 * |rv sx| := by
+  have ht0 : 0 ≤ rv a := by rw [← hs]; exact abs_nonneg _
+  have hta : |rv a| ≤ 1 / 128 := by rw [abs_of_nonneg ht0]; exact ht
+  obtain ⟨pvw, hpe, hP1, hP2⟩ := horner_inv ha hta 12 (le_refl _)
+  have e2 : ((14 - 12 : ℕ).factorial : ℝ) = 2 := by norm_num [Nat.factorial]
+  rw [e2] at hP1 hP2
+  have hP1' : (1 : ℝ) / 4 ≤ PR (rv a) 12 := by linarith
+  have hP2' : PR (rv a) 12 ≤ 1 := by linarith
+  have hpabs : |rv (hp a 12)| ≤ 2 := by
+    have := abs_sub_abs_le_abs_sub (rv (hp a 12)) (PR (rv a) 12)
+    rw [abs_of_nonneg (by linarith : (0 : ℝ) ≤ PR (rv a) 12)] at this
+    have e : (4 : ℝ) / 2 ^ 106 ≤ 1 := by norm_num
+    linarith
+  have hprod : |rv a * rv (hp a 12)| ≤ 1 / 64 := by
+    rw [abs_mul]
+    calc |rv a| * |rv (hp a 12)| ≤ 1 / 128 * 2 := mul_le_mul hta hpabs (abs_nonneg _) (by norm_num)
+      _ = 1 / 64 := by norm_num
+  obtain ⟨m1vw, hm1⟩ := mul_rv ha pvw (le_trans hprod (by norm_num))
+  have hm1abs : |rv (arithmetic.impl_Mul_TwoFloat_for_TwoFloat.mul a (hp a 12))| ≤ 1 / 32 := by
+    have := abs_sub_abs_le_abs_sub (rv (arithmetic.impl_Mul_TwoFloat_for_TwoFloat.mul a (hp a 12)))
+      (rv a * rv (hp a 12))
+    have := mul_le_mul_of_nonneg_left hprod (by positivity : (0 : ℝ) ≤ 7 / 2 ^ 106)
+    have e : (7 : ℝ) / 2 ^ 106 * (1 / 64) + 1 / 2 ^ 950 + 1 / 64 ≤ 1 / 32 := by norm_num
+    linarith
+  obtain ⟨qvw, hq⟩ := add_one_rv m1vw (le_trans hm1abs (by norm_num))
+  -- a dummy relative product bound to get the size of q first
+  have hqsize : 99 / 100 ≤ |rv (arithmetic.impl_Add_f64_for_TwoFloat.add
+      (arithmetic.impl_Mul_TwoFloat_for_TwoFloat.mul a (hp a 12)) (f64lit 0x3ff0000000000000))| ∧
+      |rv (arithmetic.impl_Add_f64_for_TwoFloat.add
+      (arithmetic.impl_Mul_TwoFloat_for_TwoFloat.mul a (hp a 12)) (f64lit 0x3ff0000000000000))| ≤ 101 / 100 := by
+    have c := expm1_core_real (w := rv sx * rv (arithmetic.impl_Add_f64_for_TwoFloat.add
+      (arithmetic.impl_Mul_TwoFloat_for_TwoFloat.mul a (hp a 12)) (f64lit 0x3ff0000000000000))) ht0 ht hs hpe hP1' hP2'
+      hm1 hq (by rw [sub_self, abs_zero]; positivity)
+    exact ⟨c.2.2, c.2.1⟩
+  generalize arithmetic.impl_Add_f64_for_TwoFloat.add
+      (arithmetic.impl_Mul_TwoFloat_for_TwoFloat.mul a (hp a 12)) (f64lit 0x3ff0000000000000) = qq at *
+  have hprod2 : |rv sx * rv qq| ≤ 2 ^ 1019 := by
+    rw [abs_mul, hs]
+    calc rv a * |rv qq| ≤ 1 / 128 * (101 / 100) := mul_le_mul ht hqsize.2 (abs_nonneg _) (by norm_num)
+      _ ≤ 2 ^ 1019 := by norm_num
+  have hprod2lo : 1 / 2 ^ 957 ≤ |rv sx * rv qq| := by
+    rw [abs_mul, hs]
+    calc (1 : ℝ) / 2 ^ 957 ≤ 1 / 2 ^ 950 * (99 / 100) := by norm_num
+      _ ≤ rv a * |rv qq| := mul_le_mul hlo hqsize.1 (by norm_num) ht0
+  obtain ⟨wvw, hw⟩ := mul_rv_rel hsx qvw hprod2lo hprod2
+  exact ⟨wvw, (expm1_core_real ht0 ht hs hpe hP1' hP2' hm1 hq hw).1⟩
+
+end expm1
+
+/-! ### the Horner loop of `exp_m1` on the whole Taylor branch (`0 ≤ t ≤ 0.7`): crude constant `30u²` -/
+
+section wide
+open F64 TwoFloat
+
+theorem horner_step_wide {t a A m Cv c c' nw : ℝ}
+    (ht0 : 0 ≤ t) (ht : t ≤ 7 / 10) (hA1 : c ≤ A) (hA2 : A ≤ 2 * c) (hc : 0 < c) (hcc : c ≤ c' / 2) (hc' : c' ≤ 1 / 2)
+    (ha : |a - A| ≤ 30 / 2 ^ 106)
+    (hm : |m - t * a| ≤ 7 / 2 ^ 106 * |t * a| + 1 / 2 ^ 950)
+    (hC : |Cv - c'| ≤ c' / 2 ^ 107)
+    (hn : |nw - (m + Cv)| ≤ cA * |m + Cv|) :
+    |nw - (t * A + c')| ≤ 30 / 2 ^ 106 ∧ c' ≤ t * A + c' ∧ t * A + c' ≤ 2 * c' := by
+  have hA0 : 0 ≤ A := by linarith
+  have hAle : A ≤ c' := by linarith
+  have hc'0 : 0 < c' := by linarith
+  have htabs : |t| = t := abs_of_nonneg ht0
+  have habsa : |a| ≤ 51 / 100 := by
+    have := abs_sub_abs_le_abs_sub a A
+    rw [abs_of_nonneg hA0] at this
+    have e : (30 : ℝ) / 2 ^ 106 ≤ 1 / 100 := by norm_num
+    linarith
+  have hta : |t * a| ≤ 7 / 10 * (51 / 100) := by
+    rw [abs_mul, htabs]; exact mul_le_mul ht habsa (abs_nonneg _) (by norm_num)
+  have htA0 : 0 ≤ t * A := mul_nonneg ht0 hA0
+  have htA : t * A ≤ 7 / 10 * c' := mul_le_mul ht hAle hA0 (by norm_num)
+  refine ⟨?_, by linarith, by linarith⟩
+  have e2 : |t * a - t * A| ≤ 7 / 10 * (30 / 2 ^ 106) := by
+    rw [← mul_sub, abs_mul, htabs]
+    exact mul_le_mul ht ha (abs_nonneg _) (by norm_num)
+  have e3 : |m - t * A| ≤ 7 / 2 ^ 106 * (7 / 10 * (51 / 100)) + 1 / 2 ^ 950 + 7 / 10 * (30 / 2 ^ 106) := by
+    have := abs_add_le (m - t * a) (t * a - t * A)
+    rw [show m - t * a + (t * a - t * A) = m - t * A by ring] at this
+    have := mul_le_mul_of_nonneg_left hta (by positivity : (0 : ℝ) ≤ 7 / 2 ^ 106)
+    linarith
+  have hmabs : |m| ≤ 36 / 100 := by
+    have := abs_sub_abs_le_abs_sub m (t * A)
+    rw [abs_of_nonneg htA0] at this
+    have e : (7 : ℝ) / 2 ^ 106 * (7 / 10 * (51 / 100)) + 1 / 2 ^ 950 + 7 / 10 * (30 / 2 ^ 106) + 7 / 10 * (1 / 2)
+        ≤ 36 / 100 := by norm_num
+    linarith
+  have e5 : |Cv - c'| ≤ 1 / 2 ^ 108 := by
+    refine le_trans hC ?_
+    rw [div_le_div_iff₀ (by positivity) (by positivity)]
+    have : (2 : ℝ) ^ 108 = 2 * 2 ^ 107 := by norm_num
+    rw [this]; nlinarith [show (0:ℝ) < 2 ^ 107 by positivity]
+  have hCabs : |Cv| ≤ 1 / 2 + 1 / 2 ^ 108 := by
+    have := abs_sub_abs_le_abs_sub Cv c'
+    rw [abs_of_pos hc'0] at this
+    linarith
+  have hsum : |m + Cv| ≤ 87 / 100 := by
+    have := abs_add_le m Cv
+    have e : (36 : ℝ) / 100 + (1 / 2 + 1 / 2 ^ 108) ≤ 87 / 100 := by norm_num
+    linarith
+  have e4 : |nw - (m + Cv)| ≤ 301 / 100 / 2 ^ 106 * (87 / 100) := by
+    refine le_trans hn ?_
+    exact mul_le_mul cA_le' hsum (abs_nonneg _) (by positivity)
+  have tri : |nw - (t * A + c')| ≤ |nw - (m + Cv)| + |m - t * A| + |Cv - c'| := by
+    have h1 := abs_add_le (nw - (m + Cv)) ((m - t * A) + (Cv - c'))
+    have h2 := abs_add_le (m - t * A) (Cv - c')
+    rw [show nw - (m + Cv) + ((m - t * A) + (Cv - c')) = nw - (t * A + c') by ring] at h1
+    linarith
+  have fin : (301 : ℝ) / 100 / 2 ^ 106 * (87 / 100)
+      + (7 / 2 ^ 106 * (7 / 10 * (51 / 100)) + 1 / 2 ^ 950 + 7 / 10 * (30 / 2 ^ 106))
+      + 1 / 2 ^ 108 ≤ 30 / 2 ^ 106 := by norm_num
+  linarith
+
+/-- **the Horner loop of `exp_m1`, `0 ≤ y ≤ 0.7`**: every iterate within `30u²` (absolute) of the exact value -/
+theorem horner_inv_wide {y : TwoFloat} (hy : VW y) (ht0 : 0 ≤ rv y) (ht : rv y ≤ 7 / 10) (j : ℕ) (hj : j ≤ 12) :
+    VW (hp y j) ∧ |rv (hp y j) - PR (rv y) j| ≤ 30 / 2 ^ 106 ∧
+      1 / (((14 - j : ℕ)).factorial : ℝ) ≤ PR (rv y) j ∧ PR (rv y) j ≤ 2 * (1 / (((14 - j : ℕ)).factorial : ℝ)) := by
+  have htabs : |rv y| ≤ 7 / 10 := by rw [abs_of_nonneg ht0]; exact ht
+  induction j with
+  | zero =>
+    obtain ⟨h1, h2, h3⟩ := FRAC_FACT_correct 14 (by norm_num)
+    have hp0 : (0 : ℝ) < 1 / ((14 : ℕ).factorial : ℝ) := by positivity
+    refine ⟨⟨h1, h2⟩, ?_, ?_, ?_⟩
+    · show |rv (explog.FRAC_FACT.getD 14 default) - 1 / ((14 : ℕ).factorial : ℝ)| ≤ _
+      refine le_trans h3 ?_
+      have : (1 : ℝ) / ((14 : ℕ).factorial : ℝ) ≤ 1 := by
+        rw [div_le_one (by positivity)]; exact_mod_cast Nat.one_le_iff_ne_zero.2 (Nat.factorial_ne_zero 14)
+      calc 1 / ((14 : ℕ).factorial : ℝ) / 2 ^ 107 ≤ 1 / 2 ^ 107 :=
+            div_le_div_of_nonneg_right this (by positivity)
+        _ ≤ 30 / 2 ^ 106 := by norm_num
+    · show 1 / ((14 : ℕ).factorial : ℝ) ≤ 1 / ((14 : ℕ).factorial : ℝ); exact le_refl _
+    · show 1 / ((14 : ℕ).factorial : ℝ) ≤ _; linarith
+  | succ j ih =>
+    obtain ⟨hvw, ha, hA1, hA2⟩ := ih (by omega)
+    obtain ⟨f1, f2, f3⟩ := fact_step j (by omega)
+    obtain ⟨c1, c2, c3⟩ := FRAC_FACT_correct (13 - j) (by omega)
+    have habsA : |PR (rv y) j| ≤ 1 := by
+      rw [abs_of_nonneg (by linarith)]; linarith
+    have habsa : |rv (hp y j)| ≤ 2 := by
+      have := abs_sub_abs_le_abs_sub (rv (hp y j)) (PR (rv y) j)
+      have e : (30 : ℝ) / 2 ^ 106 ≤ 1 := by norm_num
+      linarith
+    have hp2' : |rv y * rv (hp y j)| ≤ 2 := by
+      rw [abs_mul]
+      calc |rv y| * |rv (hp y j)| ≤ 7 / 10 * 2 := mul_le_mul htabs habsa (abs_nonneg _) (by norm_num)
+        _ ≤ 2 := by norm_num
+    obtain ⟨mvw, hm⟩ := mul_rv hy hvw (le_trans hp2' (by norm_num))
+    have hmabs : |rv (arithmetic.impl_Mul_TwoFloat_for_TwoFloat.mul y (hp y j))| ≤ 2 ^ 1000 := by
+      have := abs_sub_abs_le_abs_sub (rv (arithmetic.impl_Mul_TwoFloat_for_TwoFloat.mul y (hp y j)))
+        (rv y * rv (hp y j))
+      have := mul_le_mul_of_nonneg_left hp2' (by positivity : (0 : ℝ) ≤ 7 / 2 ^ 106)
+      have e : (7 : ℝ) / 2 ^ 106 * 2 + 1 / 2 ^ 950 + 2 ≤ 2 ^ 1000 := by norm_num
+      linarith
+    have hCabs : |rv (explog.FRAC_FACT.getD (13 - j) default)| ≤ 2 ^ 1000 := by
+      have := abs_sub_abs_le_abs_sub (rv (explog.FRAC_FACT.getD (13 - j) default))
+        (1 / (((13 - j : ℕ)).factorial : ℝ))
+      have hpos : (0 : ℝ) < 1 / (((13 - j : ℕ)).factorial : ℝ) := by positivity
+      rw [abs_of_pos hpos] at this
+      have : 1 / (((13 - j : ℕ)).factorial : ℝ) / 2 ^ 107 ≤ 1 := by
+        refine le_trans (div_le_div_of_nonneg_right f2 (by positivity)) (by norm_num)
+      have e : (1 : ℝ) / 2 + 1 ≤ 2 ^ 1000 := by norm_num
+      linarith
+    obtain ⟨nvw, hn⟩ := add_rv mvw ⟨c1, c2⟩ hmabs hCabs
+    have key := horner_step_wide ht0 ht hA1 hA2 f3 f1 f2 ha hm c3 hn
+    refine ⟨nvw, ?_, ?_, ?_⟩
+    · exact key.1
+    · have e : 14 - (j + 1) = 13 - j := by omega
+      rw [e]; exact key.2.1
+    · have e : 14 - (j + 1) = 13 - j := by omega
+      rw [e]; exact key.2.2
+
+/-- real-number core of `s·(t·P(t) + 1)` on the wide range -/
+theorem expm1_core_wide {t s p Pe m1 q w : ℝ} (ht0 : 0 ≤ t) (ht : t ≤ 7 / 10) (hs : |s| = t)
+    (hp : |p - Pe| ≤ 30 / 2 ^ 106) (hP1 : 1 / 2 ≤ Pe) (hP2 : Pe ≤ 1)
+    (hm1 : |m1 - t * p| ≤ 7 / 2 ^ 106 * |t * p| + 1 / 2 ^ 950)
+    (hq : |q - (m1 + 1)| ≤ 1 / 2 ^ 105 * |m1 + 1|)
+    (hw : |w - s * q| ≤ 7 / 2 ^ 106 * |s * q|) :
+    |w - s * (t * Pe + 1)| ≤ 42 / 2 ^ 106 * |s| ∧ |q| ≤ 18 / 10 ∧ 99 / 100 ≤ |q| := by
+  have htabs : |t| = t := abs_of_nonneg ht0
+  have hpabs : |p| ≤ 101 / 100 := by
+    have := abs_sub_abs_le_abs_sub p Pe
+    rw [abs_of_nonneg (by linarith : (0 : ℝ) ≤ Pe)] at this
+    have e : (30 : ℝ) / 2 ^ 106 ≤ 1 / 100 := by norm_num
+    linarith
+  have htp : |t * p| ≤ 7 / 10 * (101 / 100) := by
+    rw [abs_mul, htabs]; exact mul_le_mul ht hpabs (abs_nonneg _) (by norm_num)
+  have d1 : |m1 - t * Pe| ≤ 26 / 2 ^ 106 := by
+    have h1 := abs_add_le (m1 - t * p) (t * p - t * Pe)
+    rw [show m1 - t * p + (t * p - t * Pe) = m1 - t * Pe by ring] at h1
+    have h2 : |t * p - t * Pe| ≤ 7 / 10 * (30 / 2 ^ 106) := by
+      rw [← mul_sub, abs_mul, htabs]; exact mul_le_mul ht hp (abs_nonneg _) (by norm_num)
+    have h3 := mul_le_mul_of_nonneg_left htp (by positivity : (0 : ℝ) ≤ 7 / 2 ^ 106)
+    have e : (7 : ℝ) / 2 ^ 106 * (7 / 10 * (101 / 100)) + 1 / 2 ^ 950 + 7 / 10 * (30 / 2 ^ 106) ≤ 26 / 2 ^ 106 := by
+      norm_num
+    linarith
+  have htPe0 : 0 ≤ t * Pe := mul_nonneg ht0 (by linarith)
+  have htPe : t * Pe ≤ 7 / 10 := by
+    calc t * Pe ≤ 7 / 10 * 1 := mul_le_mul ht hP2 (by linarith) (by norm_num)
+      _ = 7 / 10 := by ring
+  have hm1abs : |m1| ≤ 71 / 100 := by
+    have := abs_sub_abs_le_abs_sub m1 (t * Pe)
+    rw [abs_of_nonneg htPe0] at this
+    have e : (26 : ℝ) / 2 ^ 106 + 7 / 10 ≤ 71 / 100 := by norm_num
+    linarith
+  have hm11 : |m1 + 1| ≤ 171 / 100 := by
+    have := abs_add_le m1 1
+    rw [abs_one] at this; linarith
+  have d2 : |q - (t * Pe + 1)| ≤ 295 / 10 / 2 ^ 106 := by
+    have h1 := abs_add_le (q - (m1 + 1)) (m1 - t * Pe)
+    rw [show q - (m1 + 1) + (m1 - t * Pe) = q - (t * Pe + 1) by ring] at h1
+    have h3 := mul_le_mul_of_nonneg_left hm11 (by positivity : (0 : ℝ) ≤ 1 / 2 ^ 105)
+    have e : (1 : ℝ) / 2 ^ 105 * (171 / 100) + 26 / 2 ^ 106 ≤ 295 / 10 / 2 ^ 106 := by norm_num
+    linarith
+  have hqabs : |q| ≤ 171 / 100 ∧ 99 / 100 ≤ |q| := by
+    have h1 := abs_sub_abs_le_abs_sub q (t * Pe + 1)
+    have h1' := abs_sub_abs_le_abs_sub (t * Pe + 1) q
+    rw [abs_sub_comm] at h1'
+    have h2 : |t * Pe + 1| = t * Pe + 1 := abs_of_pos (by linarith)
+    rw [h2] at h1 h1'
+    have e : (295 : ℝ) / 10 / 2 ^ 106 + 7 / 10 + 1 ≤ 171 / 100 := by norm_num
+    have e' : (99 : ℝ) / 100 ≤ 1 - 295 / 10 / 2 ^ 106 := by norm_num
+    constructor <;> linarith
+  refine ⟨?_, le_trans hqabs.1 (by norm_num), hqabs.2⟩
+  have hS := abs_nonneg s
+  have hsq : |s * q| ≤ 171 / 100 * |s| := by
+    rw [abs_mul, mul_comm]; exact mul_le_mul_of_nonneg_right hqabs.1 hS
+  have h1 := abs_add_le (w - s * q) (s * q - s * (t * Pe + 1))
+  rw [show w - s * q + (s * q - s * (t * Pe + 1)) = w - s * (t * Pe + 1) by ring] at h1
+  have h2 : |s * q - s * (t * Pe + 1)| ≤ 295 / 10 / 2 ^ 106 * |s| := by
+    rw [← mul_sub, abs_mul, mul_comm]; exact mul_le_mul_of_nonneg_right d2 hS
+  have h3 := mul_le_mul_of_nonneg_left hsq (by positivity : (0 : ℝ) ≤ 7 / 2 ^ 106)
+  have e : (7 : ℝ) / 2 ^ 106 * (171 / 100 * |s|) + 295 / 10 / 2 ^ 106 * |s| = 4147 / 100 / 2 ^ 106 * |s| := by ring
+  have e' : (4147 : ℝ) / 100 / 2 ^ 106 * |s| ≤ 42 / 2 ^ 106 * |s| :=
+    mul_le_mul_of_nonneg_right (by norm_num) hS
+  linarith
+
+/-- the Taylor-branch kernel on the wide range `2^-9 ≤ |x| ≤ 0.7` -/
+theorem expm1_kernel_wide {a sx : TwoFloat} (ha : VW a) (hsx : VW sx) (hs : |rv sx| = rv a) (ht : rv a ≤ 7 / 10)
+    (hlo : 1 / 2 ^ 9 ≤ rv a) :
+    VW (arithmetic.impl_Mul_TwoFloat_for_TwoFloat.mul sx (arithmetic.impl_Add_f64_for_TwoFloat.add
+      (arithmetic.impl_Mul_TwoFloat_for_TwoFloat.mul a (hp a 12)) (f64lit 0x3ff0000000000000))) ∧
+    |rv (arithmetic.impl_Mul_TwoFloat_for_TwoFloat.mul sx (arithmetic.impl_Add_f64_for_TwoFloat.add
+      (arithmetic.impl_Mul_TwoFloat_for_TwoFloat.mul a (hp a 12)) (f64lit 0x3ff0000000000000)))
+      - rv sx * (rv a * PR (rv a) 12 + 1)| ≤ 42 / 2 ^ 106 * |rv sx| := by
+  have ht0 : 0 ≤ rv a := by rw [← hs]; exact abs_nonneg _
+  have hta : |rv a| ≤ 7 / 10 := by rw [abs_of_nonneg ht0]; exact ht
+  obtain ⟨pvw, hpe, hP1, hP2⟩ := horner_inv_wide ha ht0 ht 12 (le_refl _)
+  have e2 : ((14 - 12 : ℕ).factorial : ℝ) = 2 := by norm_num [Nat.factorial]
+  rw [e2] at hP1 hP2
+  have hP1' : (1 : ℝ) / 2 ≤ PR (rv a) 12 := hP1
+  have hP2' : PR (rv a) 12 ≤ 1 := by linarith
+  have hpabs : |rv (hp a 12)| ≤ 2 := by
+    have := abs_sub_abs_le_abs_sub (rv (hp a 12)) (PR (rv a) 12)
+    rw [abs_of_nonneg (by linarith : (0 : ℝ) ≤ PR (rv a) 12)] at this
+    have e : (30 : ℝ) / 2 ^ 106 ≤ 1 := by norm_num
+    linarith
+  have hprod : |rv a * rv (hp a 12)| ≤ 2 := by
+    rw [abs_mul]
+    calc |rv a| * |rv (hp a 12)| ≤ 7 / 10 * 2 := mul_le_mul hta hpabs (abs_nonneg _) (by norm_num)
+      _ ≤ 2 := by norm_num
+  obtain ⟨m1vw, hm1⟩ := mul_rv ha pvw (le_trans hprod (by norm_num))
+  have hm1abs : |rv (arithmetic.impl_Mul_TwoFloat_for_TwoFloat.mul a (hp a 12))| ≤ 3 := by
+    have := abs_sub_abs_le_abs_sub (rv (arithmetic.impl_Mul_TwoFloat_for_TwoFloat.mul a (hp a 12)))
+      (rv a * rv (hp a 12))
+    have := mul_le_mul_of_nonneg_left hprod (by positivity : (0 : ℝ) ≤ 7 / 2 ^ 106)
+    have e : (7 : ℝ) / 2 ^ 106 * 2 + 1 / 2 ^ 950 + 2 ≤ 3 := by norm_num
+    linarith
+  obtain ⟨qvw, hq⟩ := add_one_rv m1vw (le_trans hm1abs (by norm_num))
+  have hqsize : 99 / 100 ≤ |rv (arithmetic.impl_Add_f64_for_TwoFloat.add
+      (arithmetic.impl_Mul_TwoFloat_for_TwoFloat.mul a (hp a 12)) (f64lit 0x3ff0000000000000))| ∧
+      |rv (arithmetic.impl_Add_f64_for_TwoFloat.add
+      (arithmetic.impl_Mul_TwoFloat_for_TwoFloat.mul a (hp a 12)) (f64lit 0x3ff0000000000000))| ≤ 18 / 10 := by
+    have c := expm1_core_wide (w := rv sx * rv (arithmetic.impl_Add_f64_for_TwoFloat.add
+      (arithmetic.impl_Mul_TwoFloat_for_TwoFloat.mul a (hp a 12)) (f64lit 0x3ff0000000000000))) ht0 ht hs hpe hP1' hP2'
+      hm1 hq (by rw [sub_self, abs_zero]; positivity)
+    exact ⟨c.2.2, c.2.1⟩
+  generalize arithmetic.impl_Add_f64_for_TwoFloat.add
+      (arithmetic.impl_Mul_TwoFloat_for_TwoFloat.mul a (hp a 12)) (f64lit 0x3ff0000000000000) = qq at *
+  have hprod2 : |rv sx * rv qq| ≤ 2 ^ 1019 := by
+    rw [abs_mul, hs]
+    calc rv a * |rv qq| ≤ 7 / 10 * (18 / 10) := mul_le_mul ht hqsize.2 (abs_nonneg _) (by norm_num)
+      _ ≤ 2 ^ 1019 := by norm_num
+  have hprod2lo : 1 / 2 ^ 957 ≤ |rv sx * rv qq| := by
+    rw [abs_mul, hs]
+    calc (1 : ℝ) / 2 ^ 957 ≤ 1 / 2 ^ 9 * (99 / 100) := by norm_num
+      _ ≤ rv a * |rv qq| := mul_le_mul hlo hqsize.1 (by norm_num) ht0
+  obtain ⟨wvw, hw⟩ := mul_rv_rel hsx qvw hprod2lo hprod2
+  exact ⟨wvw, (expm1_core_wide ht0 ht hs hpe hP1' hP2' hm1 hq hw).1⟩
+
+/-- Taylor truncation on the wide range: `t·(t·P(t) + 1)` against `e^t − 1`, `0 < t ≤ 0.7` -/
+theorem taylor_wide {t : ℝ} (h0 : 0 < t) (ht : t ≤ 7 / 10) :
+    |t * (t * PR t 12 + 1) - (Real.exp t - 1)| ≤ 1 / 2 ^ 47 * (Real.exp t - 1) ∧ t ≤ Real.exp t - 1 := by
+  have h1 : t ≤ Real.exp t - 1 := by linarith [Real.add_one_le_exp t]
+  refine ⟨?_, h1⟩
+  have hb := expm1_taylor14 (t := t) (by rw [abs_of_pos h0]; linarith)
+  rw [← PR_sum, abs_sub_comm, abs_of_pos h0] at hb
+  refine le_trans hb ?_
+  have h14 : t ^ 14 ≤ (7 / 10) ^ 14 := pow_le_pow_left₀ h0.le ht 14
+  have e : t ^ 15 = t ^ 14 * t := pow_succ _ _
+  rw [e]
+  have h2 : t ^ 14 * t * (16 / (1307674368000 * 15)) ≤ (7 / 10) ^ 14 * t * (16 / (1307674368000 * 15)) :=
+    mul_le_mul_of_nonneg_right (mul_le_mul_of_nonneg_right h14 h0.le) (by positivity)
+  have h3 : ((7 : ℝ) / 10) ^ 14 * t * (16 / (1307674368000 * 15)) = ((7 / 10) ^ 14 * (16 / (1307674368000 * 15))) * t := by
+    ring
+  have h4 : ((7 : ℝ) / 10) ^ 14 * (16 / (1307674368000 * 15)) ≤ 1 / 2 ^ 47 := by norm_num
+  have h5 : ((7 / 10) ^ 14 * (16 / (1307674368000 * 15))) * t ≤ 1 / 2 ^ 47 * t := mul_le_mul_of_nonneg_right h4 h0.le
+  have h6 : (1 : ℝ) / 2 ^ 47 * t ≤ 1 / 2 ^ 47 * (Real.exp t - 1) := mul_le_mul_of_nonneg_left h1 (by positivity)
+  linarith
+
+end wide
+
+/-! ## `exp` with the accuracy of `exp_half` as a parameter (sharper constants for small arguments) -/
+
+section expbeta
+open F64 TwoFloat
+
+/-- **`exp` with the accuracy `β` of `exp_half(k)` as a parameter** (same proof as `ExpBound.exp_bound_split`):
+`k = round(2x)`, `|x − k/2| ≤ 0.2501`, and the relative error of `exp(x)` is `5.2u² + β + 7u²` (+ cross terms) -/
+theorem exp_bound_beta (x : TwoFloat) (hv : x.Valid) (hw : x.WF) (hlo : -600 ≤ rv x) (hhi : rv x ≤ 700) :
+    VW (TwoFloat.exp x) ∧ ∃ k : ℤ, -1200 ≤ k ∧ k ≤ 1400 ∧ |rv x - (k : ℝ) / 2| ≤ 2501 / 10000 ∧
+      ∀ β ε : ℝ, |rv (explog.exp_half (⟨k⟩ : I32)) - Real.exp ((k : ℝ) / 2)| ≤ β * Real.exp ((k : ℝ) / 2) →
+        (52 / 10 / 2 ^ 106 + β + 52 / 10 / 2 ^ 106 * β)
+          + 7 / 2 ^ 106 * (1 + (52 / 10 / 2 ^ 106 + β + 52 / 10 / 2 ^ 106 * β)) ≤ ε →
+        |rv (TwoFloat.exp x) - Real.exp (rv x)| ≤ ε * Real.exp (rv x) := by
+  have hU : (0 : ℝ) < 2 ^ 1074 := by positivity
+  -- the high word is inside (−709, 709)
+  have hVabs : |x.V| ≤ 700 * 2 ^ 1074 := by
+    have h1 : |rv x| ≤ 700 := abs_le.2 ⟨by linarith, hhi⟩
+    rw [rv_abs, div_le_iff₀ hU] at h1
+    exact_mod_cast h1
+  obtain ⟨b1, _⟩ := PowiBound.hi_bounds hv
+  have hhiabs : |x.hi.toInt| < 709 * (F64.unit : ℤ) := by
+    rw [unit_cast_eq]
+    have hT : (0 : ℤ) < 2 ^ 1074 := by positivity
+    generalize (2 : ℤ) ^ 1074 = T at *
+    have : (0 : ℤ) ≤ |x.hi.toInt| := abs_nonneg _
+    norm_num at b1
+    omega
+  obtain ⟨hl, hh⟩ := abs_lt.1 hhiabs
+  have hl' : -(709 * (F64.unit : Int)) < x.hi.toInt := by linarith
+  unfold TwoFloat.exp
+  split_ifs with c1 c2 c3 c4
+  · exfalso
+    rw [PF.rle_eq, PF.EXP_LOWER_val, le_iff_toInt hv.1 rfl] at c1
+    have : (fin true (709 * F64.unit)).toInt = -(709 * (F64.unit : Int)) := by
+      show -((709 * F64.unit : Nat) : Int) = _; push_cast; rfl
+    rw [this] at c1; omega
+  · exfalso
+    rw [PF.rge_eq', PF.EXP_UPPER_val, ge_iff_toInt hv.1 rfl] at c2
+    have : (fin false (709 * F64.unit)).toInt = 709 * (F64.unit : Int) := by
+      show ((709 * F64.unit : Nat) : Int) = _; push_cast; rfl
+    rw [this] at c2; omega
+  · -- x.hi = ±0, hence x = 0
+    have h0 : x.hi.toInt = 0 := by
+      rcases Ident.f64_eq_zero_cases _ c3 with e | e <;> rw [e] <;> rfl
+    have hl0 : x.lo.toInt = 0 := by
+      have := hv.abs_lo_le
+      rw [h0, abs_zero] at this
+      exact abs_eq_zero.1 (le_antisymm this (abs_nonneg _))
+    have hx0 : rv x = 0 := by unfold rv TwoFloat.V; rw [h0, hl0]; simp
+    have h1 : (convert.impl_From_f64_for_TwoFloat.from (f64lit 0x3ff0000000000000)).Valid := by decide +kernel
+    have h2 : (convert.impl_From_f64_for_TwoFloat.from (f64lit 0x3ff0000000000000)).WF := by decide +kernel
+    have h3 : (convert.impl_From_f64_for_TwoFloat.from (f64lit 0x3ff0000000000000)).V = (2 : ℤ) ^ 1074 := by
+      decide +kernel
+    refine ⟨⟨h1, h2⟩, ?_⟩
+    have : rv (convert.impl_From_f64_for_TwoFloat.from (f64lit 0x3ff0000000000000)) = 1 := by
+      unfold rv; rw [h3]
+      simp only [Int.cast_pow, Int.cast_ofNat]
+      exact div_self (by positivity : ((2 : ℝ) ^ 1074) ≠ 0)
+    refine ⟨0, by norm_num, by norm_num, by rw [hx0]; norm_num, ?_⟩
+    intro β ε hβ hε
+    rw [this, hx0, Real.exp_zero]
+    have hβ0 : 0 ≤ β := by
+      have h5 := le_trans (abs_nonneg _) hβ
+      exact nonneg_of_mul_nonneg_left h5 (Real.exp_pos _)
+    have hε0 : 0 ≤ ε := by
+      refine le_trans ?_ hε
+      positivity
+    simp only [sub_self, abs_zero, mul_one]
+    exact hε0
+  · exfalso
+    have := hv.1
+    cases hx : x.hi <;> rw [hx] at c4 this <;> simp_all [F64.is_nan, F64.is_finite]
+  · -- the main branch
+    obtain ⟨⟨zf, zb⟩, k, hyf, hyk, hkb⟩ := PF.exp_reduce x hv hw hl' hh
+    dsimp only
+    unfold TwoFloat.hi_m
+    rw [PF.cast_f64_i32 hyf hyk (by omega)]
+    generalize hy : (TwoFloat.round (arithmetic.impl_Mul_TwoFloat_for_f64.mul (f64lit 0x4000000000000000) x)).hi
+      = y at *
+    have hdiv : (y /. f64lit 0x4000000000000000) = F64.div y (f64lit 0x4000000000000000) := rfl
+    rw [hdiv]
+    -- y / 2 = k/2 exactly
+    have htwo : IsVal (f64lit 0x4000000000000000) (2 * (F64.unit : Int)) := by
+      rw [PF.lit_two]
+      exact ⟨rfl, by show ((2 * F64.unit : Nat) : Int) = _; push_cast; ring⟩
+    have hkabs : |k| ≤ 1418 := by rw [← Int.natCast_natAbs]; exact_mod_cast hkb
+    have hM : (2 : Int) ^ 1090 ≤ (maxFin : Int) := by exact_mod_cast PF.maxFin_ge
+    have hUz : (F64.unit : ℤ) = 2 ^ 1074 := unit_cast_eq
+    have hP : (0 : ℤ) < 2 ^ 1073 := by positivity
+    have hW : IsVal (F64.div y (f64lit 0x4000000000000000)) (k * 2 ^ 1073) := by
+      apply IsVal.div_exact ⟨hyf, hyk⟩ htwo
+      · rw [hUz]; positivity
+      · rw [hUz]; ring
+      · exact PF.repI_small_mul_pow2 _ (by omega)
+      · rw [abs_mul, abs_of_pos hP]
+        calc |k| * 2 ^ 1073 ≤ 1418 * 2 ^ 1073 := by nlinarith
+          _ ≤ 2 ^ 1090 := by norm_num
+          _ ≤ _ := hM
+    have hWWF : (F64.div y (f64lit 0x4000000000000000)).WF := div_WF _ _
+    generalize F64.div y (f64lit 0x4000000000000000) = Wf at *
+    have hfvW : fv Wf = (k : ℝ) / 2 := by
+      unfold fv; rw [hW.2]; push_cast
+      rw [div_eq_div_iff (by positivity) (by norm_num)]
+      have : (2 : ℝ) ^ 1074 = 2 ^ 1073 * 2 := by norm_num
+      rw [this]; ring
+    have hWb : Wf.toInt.natAbs < 2 ^ 2095 := by
+      rw [hW.2]
+      apply natAbs_lt_of_abs_lt
+      rw [abs_mul, abs_of_pos hP]
+      calc |k| * 2 ^ 1073 ≤ 1418 * 2 ^ 1073 := by nlinarith
+        _ < 2 ^ 2095 := by norm_num
+    have hxabs : |rv x| ≤ 2 ^ 1000 := by
+      have : |rv x| ≤ 700 := abs_le.2 ⟨by linarith, hhi⟩
+      exact le_trans this (by norm_num)
+    obtain ⟨zvw, hz⟩ := sub_tf_rv ⟨hv, hw⟩ hW.1 hWWF hxabs hWb
+    rw [hfvW] at hz
+    generalize arithmetic.impl_Sub_f64_for_TwoFloat.sub x Wf = z at *
+    -- |rv z| ≤ (1 + 2^-53)/4 and hence |D| ≤ 0.2501
+    set D := rv x - (k : ℝ) / 2 with hD
+    have hzabs : |rv z| ≤ 25001 / 100000 := by
+      obtain ⟨_, c2⟩ := PowiBound.hi_bounds zvw.1
+      have hzb : |z.hi.toInt| ≤ 2 ^ 1072 := by
+        have := abs_le_of_natAbs_le zb; exact_mod_cast this
+      have hzV : |z.V| ≤ 2 ^ 1072 + 2 ^ 1020 := by
+        have e1 : (2 : ℤ) ^ 1072 = 2 ^ 52 * 2 ^ 1020 := by norm_num
+        rw [e1] at hzb ⊢
+        generalize (2 : ℤ) ^ 1020 = T at *
+        norm_num at c2 ⊢
+        omega
+      rw [rv_abs, div_le_iff₀ hU]
+      have : ((|z.V| : ℤ) : ℝ) ≤ (((2 : ℤ) ^ 1072 + 2 ^ 1020 : ℤ) : ℝ) := by exact_mod_cast hzV
+      refine le_trans this ?_
+      push_cast
+      norm_num
+    have hDabs : |D| ≤ 2501 / 10000 := by
+      have h1 := abs_sub_abs_le_abs_sub D (rv z)
+      rw [abs_sub_comm D (rv z)] at h1
+      have h2 : (1 : ℝ) / 2 ^ 105 * |D| ≤ 1 / 1000000 * |D| :=
+        mul_le_mul_of_nonneg_right (by norm_num) (abs_nonneg _)
+      linarith
+    -- the range of k
+    have hk1 : -1200 ≤ k := by
+      obtain ⟨d1, _⟩ := abs_le.1 hDabs
+      have : (-1201 : ℝ) < (k : ℝ) := by rw [hD] at d1; linarith
+      have : (-1201 : ℤ) < k := by exact_mod_cast this
+      omega
+    have hk2 : k ≤ 1400 := by
+      obtain ⟨_, d2⟩ := abs_le.1 hDabs
+      have : (k : ℝ) < 1401 := by rw [hD] at d2; linarith
+      have : k < (1401 : ℤ) := by exact_mod_cast this
+      omega
+    obtain ⟨rvw, hr, hrabs⟩ := expm1_quarter_bound zvw zb
+    obtain ⟨ezvw, hez⟩ := add_one_rv rvw (le_trans hrabs (by norm_num))
+    obtain ⟨eyvw, hey⟩ := exp_half_bound k hk1 (by omega)
+    have hey0 : 0 ≤ k → |rv (explog.exp_half (⟨k⟩ : I32)) - Real.exp ((k : ℝ) / 2)|
+        ≤ 81 / 10 / 2 ^ 106 * Real.exp ((k : ℝ) / 2) := fun h => (exp_half_nonneg 1 k h (by omega)).2
+    obtain ⟨y1, y2⟩ := exp_half_range hk1 hk2
+    have hY := Real.exp_pos ((k : ℝ) / 2)
+    generalize TwoFloat.expm1_quarter z = r at *
+    generalize arithmetic.impl_Add_f64_for_TwoFloat.add r (f64lit 0x3ff0000000000000) = ez at *
+    generalize hey_def : explog.exp_half (⟨k⟩ : I32) = ey at *
+    -- crude ranges for the final product
+    have hezr : 1 / 4 ≤ |rv ez| ∧ |rv ez| ≤ 2 := by
+      have h1 := abs_sub_abs_le_abs_sub (rv ez) (rv r + 1)
+      have h2 := abs_sub_abs_le_abs_sub (rv r + 1) (rv ez)
+      rw [abs_sub_comm] at h2
+      obtain ⟨r1, r2⟩ := abs_le.1 hrabs
+      have h3 : |rv r + 1| = rv r + 1 := abs_of_pos (by linarith)
+      rw [h3] at h1 h2 hez
+      have h4 : (1 : ℝ) / 2 ^ 105 * (rv r + 1) ≤ 1 / 2 ^ 105 * (3 / 2) :=
+        mul_le_mul_of_nonneg_left (by linarith) (by positivity)
+      have e : (1 : ℝ) / 2 ^ 105 * (3 / 2) ≤ 1 / 4 := by norm_num
+      constructor <;> linarith
+    have heyr : Real.exp ((k : ℝ) / 2) / 2 ≤ |rv ey| ∧ |rv ey| ≤ 2 * Real.exp ((k : ℝ) / 2) := by
+      have h1 := abs_sub_abs_le_abs_sub (rv ey) (Real.exp ((k : ℝ) / 2))
+      have h2 := abs_sub_abs_le_abs_sub (Real.exp ((k : ℝ) / 2)) (rv ey)
+      rw [abs_sub_comm] at h2
+      rw [abs_of_pos hY] at h1 h2
+      have : (242 : ℝ) / 10 / 2 ^ 106 * Real.exp ((k : ℝ) / 2) ≤ Real.exp ((k : ℝ) / 2) / 2 := by
+        have : (242 : ℝ) / 10 / 2 ^ 106 ≤ 1 / 2 := by norm_num
+        nlinarith
+      constructor <;> linarith
+    have hp1 : |rv ez * rv ey| ≤ 2 ^ 1019 := by
+      rw [abs_mul]
+      calc |rv ez| * |rv ey| ≤ 2 * (2 * Real.exp ((k : ℝ) / 2)) :=
+            mul_le_mul hezr.2 heyr.2 (abs_nonneg _) (by norm_num)
+        _ ≤ 2 * (2 * 2 ^ 1011) := by linarith
+        _ ≤ 2 ^ 1019 := by norm_num
+    have hp0 : 1 / 2 ^ 957 ≤ |rv ez * rv ey| := by
+      rw [abs_mul]
+      calc (1 : ℝ) / 2 ^ 957 ≤ 1 / 4 * (1 / 2 ^ 867 / 2) := by norm_num
+        _ ≤ 1 / 4 * (Real.exp ((k : ℝ) / 2) / 2) := by
+            apply mul_le_mul_of_nonneg_left _ (by norm_num); linarith
+        _ ≤ |rv ez| * |rv ey| := mul_le_mul hezr.1 heyr.1 (by positivity) (abs_nonneg _)
+    obtain ⟨resvw, hres⟩ := mul_rv_rel ezvw eyvw hp0 hp1
+    obtain ⟨resvw, hres⟩ := mul_rv_rel ezvw eyvw hp0 hp1
+    have e : Real.exp D * Real.exp ((k : ℝ) / 2) = Real.exp (rv x) := by
+      rw [← Real.exp_add, hD]; congr 1; ring
+    refine ⟨resvw, k, hk1, hk2, hDabs, ?_⟩
+    intro β ε hβ hε
+    rw [hey_def] at hβ
+    have fin := (exp_final_real hDabs hz hr hez hY hβ hres hε).1
+    rw [e] at fin
+    exact fin
+
+def halfIdxOK (i : ℕ) : Bool :=
+  decide (explog.exp_half (⟨(i : ℤ)⟩ : I32) =
+    if i = 0 then convert.impl_From_i32_for_TwoFloat.from (1 : I32)
+    else explog.exp_half.EXP_HALF_N.getD (i - 1) default)
+
+theorem half_idx_check : (List.range 32).all halfIdxOK = true := by decide +kernel
+
+/-- **`exp_half(k)` for `0 ≤ k ≤ 31`** is `1` or a single table entry: relative error at most `2^-107` -/
+theorem exp_half_table (k : ℤ) (h0 : 0 ≤ k) (h1 : k ≤ 31) :
+    |rv (explog.exp_half (⟨k⟩ : I32)) - Real.exp ((k : ℝ) / 2)| ≤ 1 / 2 ^ 107 * Real.exp ((k : ℝ) / 2) := by
+  obtain ⟨i, rfl⟩ := Int.eq_ofNat_of_zero_le h0
+  have hi : i < 32 := by omega
+  have h := List.all_eq_true.1 half_idx_check i (List.mem_range.2 hi)
+  unfold halfIdxOK at h
+  rw [of_decide_eq_true h]
+  by_cases hz : i = 0
+  · subst hz
+    rw [if_pos rfl]
+    have h3 : (convert.impl_From_i32_for_TwoFloat.from (1 : I32)).V = (2 : ℤ) ^ 1074 := by decide +kernel
+    have : rv (convert.impl_From_i32_for_TwoFloat.from (1 : I32)) = 1 := by
+      unfold rv; rw [h3]
+      simp only [Int.cast_pow, Int.cast_ofNat]
+      exact div_self (by positivity : ((2 : ℝ) ^ 1074) ≠ 0)
+    rw [this]
+    norm_num
+  · rw [if_neg hz]
+    obtain ⟨-, hb⟩ := EH_entry (i - 1) (by omega)
+    have e : (((i - 1 : ℕ) : ℝ) + 1) / 2 = (((i : ℕ) : ℤ) : ℝ) / 2 := by
+      have : ((i - 1 : ℕ) : ℝ) + 1 = (i : ℝ) := by
+        have : 1 ≤ i := Nat.one_le_iff_ne_zero.2 hz
+        push_cast [Nat.cast_sub this]; ring
+      rw [this]; push_cast; rfl
+    rw [e] at hb
+    refine le_trans hb ?_
+    rw [div_eq_mul_one_div, mul_comm]
+
+/-- **accuracy of `exp` for `−0.2 ≤ x ≤ 15.7`** (`0 ≤ k = round(2x) ≤ 31`: no table product, no division):
+relative error at most `12.8u²` -/
+theorem exp_bound_small_k (x : TwoFloat) (hv : x.Valid) (hw : x.WF) (hlo : -(1 / 5) ≤ rv x) (hhi : rv x ≤ 157 / 10) :
+    VW (TwoFloat.exp x) ∧ |rv (TwoFloat.exp x) - Real.exp (rv x)| ≤ 128 / 10 / 2 ^ 106 * Real.exp (rv x) := by
+  obtain ⟨evw, k, -, -, hD, hall⟩ := exp_bound_beta x hv hw (by linarith) (by linarith)
+  refine ⟨evw, ?_⟩
+  obtain ⟨d1, d2⟩ := abs_le.1 hD
+  have hk0 : 0 ≤ k := by
+    have : (-1 : ℝ) < (k : ℝ) := by linarith
+    have : (-1 : ℤ) < k := by exact_mod_cast this
+    omega
+  have hk1 : k ≤ 31 := by
+    have : (k : ℝ) < 32 := by linarith
+    have : k < (32 : ℤ) := by exact_mod_cast this
+    omega
+  exact hall (1 / 2 ^ 107) (128 / 10 / 2 ^ 106) (exp_half_table k hk0 hk1) (by norm_num)
+
+end expbeta
 
 end Exp2Bound
